@@ -34,12 +34,20 @@ round 3: Lean theorems rcos_core / angular_entry_error_rounded (rounded angular 
          geometric_distance_distribution, link_distance_distribution; oracles for the
          wrappers, region_indices (exact crossing number) and network-level histories
          that must leave the grid's cached distance matrices untouched (seeded C12-3)
+round 4: every generated case runs under ImplGuard: an exception raised by the code under
+         test is an oracle failure with a replay, not a harness error (seeded C12-5);
+         Model/GeoArea.lean (the grid as an object of any dimension, GeoGrid.distance,
+         GeoGrid.coord_sequence_from_rect_grid, connectivity weighted and total link
+         distances) in correspondence (requests eucobj2, cwd, tld, georect; angdist / eucld
+         answered by the object-level models); Euclidean grids of dimension 1-5 in every
+         suite, regular grids from 1-3 axes, one 130-node grid per distance suite
 """
 import contextlib
 import io
 import itertools
 import math
 import struct
+import traceback
 from collections import Counter
 from fractions import Fraction as Fr
 
@@ -109,6 +117,86 @@ def custom_correspond(ctx, name, reqs, judge):
                    not bad, "\n".join(f"{reqs[i][:300]} :: {d[:300]}" for i, d in bad[:5]))
     ctx.extra["requests_compared"] = ctx.extra.get("requests_compared", 0) + len(reqs)
     return [i for i, _ in bad], model
+
+
+# --------------------------------------------------------------------------
+# round 4: an exception raised by the code under test is a reported failure, never a
+# harness error (seeded C12-5 made `Grid.distance()` raise IndexError for 1-D grids in a
+# suite that called it unprotected and the whole check died with exit 2)
+# --------------------------------------------------------------------------
+
+def impl_frames(tb):
+    """the frames of a traceback that lie in the code under test (the pyunicorn package built
+    from the working tree, incl. its compiled extensions), outermost first"""
+    out = []
+    for fs in traceback.extract_tb(tb):
+        fn = fs.filename.replace("\\", "/")
+        if "/pyunicorn/" in fn or fn.startswith("pyunicorn/"):
+            out.append(f"{fn.rsplit('/', 1)[-1]}:{fs.name}")
+    return out
+
+
+def jsonable(o):
+    if isinstance(o, dict):
+        return {str(k): jsonable(v) for k, v in o.items()}
+    if isinstance(o, (list, tuple)):
+        return [jsonable(v) for v in o]
+    if isinstance(o, np.ndarray):
+        return o.tolist()
+    if isinstance(o, np.generic):
+        return o.item()
+    if isinstance(o, Fr):
+        return float(o)
+    return o
+
+
+class ImplGuard:
+    """`with ImplGuard(ctx, suite, cur, lists):` around the body of one generated case.
+    `cur` is filled by the body with the inputs of the case as soon as they exist.  An
+    exception whose traceback passes through the code under test becomes an oracle failure
+    (signature kind=exception, the public entry point, the exception type) with `cur` as the
+    replay; the per-case request / answer lists are cut back to their length at the start of
+    the case so that the correspondences of the suite stay aligned.  An exception that never
+    entered the code under test is a bug of the harness and propagates (exit 2)."""
+
+    def __init__(self, ctx, suite, cur, lists=()):
+        self.ctx, self.suite, self.cur, self.lists = ctx, suite, cur, lists
+
+    def __enter__(self):
+        self.lens = [len(l) for l in self.lists]
+        return self
+
+    def __exit__(self, et, ev, tb):
+        if et is None or not issubclass(et, Exception):
+            return False
+        fr = impl_frames(tb)
+        if not fr:
+            return False
+        for l, k in zip(self.lists, self.lens):
+            del l[k:]
+        report_impl_exception(self.ctx, self.suite, self.cur, et, ev, fr)
+        return True
+
+
+def report_impl_exception(ctx, suite, cur, et, ev, fr):
+    entry = fr[0].split(":", 1)[1]
+    ctx.count(f"impl-exception:{suite}")
+    ctx.fail({"kind": "exception", "suite": suite, "call": entry, "error": et.__name__},
+             f"{suite}: {entry}() raised {et.__name__}: {str(ev)[:200]} (raised in {fr[-1]})",
+             dict(jsonable(cur), suite=suite, call=entry, error=et.__name__,
+                  message=str(ev)[:300], frames=fr))
+
+
+def guarded_suite(ctx, fn, *args):
+    """last resort around a whole suite (code outside the per-case guards)"""
+    try:
+        fn(ctx, *args)
+    except Exception as e:  # noqa
+        fr = impl_frames(e.__traceback__)
+        if not fr:
+            raise
+        report_impl_exception(ctx, fn.__name__, {"note": "raised outside a per-case guard; "
+                              "re-run ./check C12 with the same VERIF_SEED"}, type(e), e, fr)
 
 
 # --------------------------------------------------------------------------
@@ -350,7 +438,7 @@ def run(ctx):
         "expression leave [-1,1]) and dyadic coordinates (k/4) for which float32 arithmetic is "
         "exact; object level: coordinate sets with poles, antimeridian, coincident, "
         "near-coincident, antipodal, near-antipodal, equatorial points, rectangular grids, "
-        "decimal coordinates; Euclidean grids of dimension 1-4 (thorough: 1-6); lookups at "
+        "decimal coordinates; Euclidean grids of dimension 1-5 (thorough: 1-6) in every Euclidean suite incl. regular grids built from 1-3 axes; lookups at "
         "nodes, near nodes, poles and random points; rectangular grids with 1-4 axes of length "
         "0-4; distinct = distinct (suite, canonical input); non-trivial = at least 2 nodes "
         "(distance suites), at least 2 nodes at different distances (lookups), at least two "
@@ -365,7 +453,10 @@ def run(ctx):
         "grid_type euclidean / spherical, geometry_corrected both ways; polygons with 3-5 vertices in "
         "both orientations passed as float64 / float32 / list / read-only arrays on grids with and "
         "without negative longitudes; 2-6 step histories of 21 public network measures on two "
-        "networks sharing one grid")
+        "networks sharing one grid; round 4: one angular and one Euclidean grid of 130 nodes per run; "
+        "geo networks' connectivity weighted and total link distances (all six wrappers, "
+        "geometry_corrected both ways, directed and undirected); an exception raised by the code "
+        "under test in any suite is reported as a violation with the inputs of the case")
     ctx.trusted = common.DEFAULT_TRUSTED + [
         "IEEE-754: float32 arithmetic on the dyadic kernel inputs is exact (all intermediate "
         "values have < 24 significant bits) — the reason the Rat model can be compared exactly",
@@ -396,22 +487,22 @@ def run(ctx):
         ctx.obligation("leanchecker replays Pyunicorn.Properties.C12 through the kernel",
                        "lean-kernel", rc == 0, out[-600:])
 
-    suite_kernel_angular(ctx, K, rng, 250 * S)
-    suite_kernel_euclid(ctx, K, rng, 200 * S, 4 if quick else 6)
-    suite_grid_node_number(ctx, Grid, rng, 250 * S)
-    suite_rect(ctx, Grid, GeoGrid, rng, 150 * S)
-    suite_angular(ctx, GeoGrid, rng, 120 * S, K)
-    suite_euclid(ctx, Grid, rng, 120 * S, 4 if quick else 6)
-    suite_geo_node_number(ctx, GeoGrid, rng, 60 * S)
-    suite_weights(ctx, GeoGrid, GeoNetwork, rng, 60 * S)
-    suite_link_distance(ctx, Grid, GeoGrid, GeoNetwork, SpatialNetwork, rng, 30 * S)
-    suite_climate_weights(ctx, GeoGrid, rng, 24 * S)
-    suite_convlon(ctx, GeoGrid, rng, 80 * S)
+    guarded_suite(ctx, suite_kernel_angular, K, rng, 250 * S)
+    guarded_suite(ctx, suite_kernel_euclid, K, rng, 200 * S, 5 if quick else 6)
+    guarded_suite(ctx, suite_grid_node_number, Grid, rng, 250 * S)
+    guarded_suite(ctx, suite_rect, Grid, GeoGrid, rng, 150 * S)
+    guarded_suite(ctx, suite_angular, GeoGrid, rng, 120 * S, K)
+    guarded_suite(ctx, suite_euclid, Grid, rng, 120 * S, 5 if quick else 6)
+    guarded_suite(ctx, suite_geo_node_number, GeoGrid, rng, 60 * S)
+    guarded_suite(ctx, suite_weights, GeoGrid, GeoNetwork, rng, 60 * S)
+    guarded_suite(ctx, suite_link_distance, Grid, GeoGrid, GeoNetwork, SpatialNetwork, rng, 30 * S)
+    guarded_suite(ctx, suite_climate_weights, GeoGrid, rng, 24 * S)
+    guarded_suite(ctx, suite_convlon, GeoGrid, rng, 80 * S)
     # round 3
-    suite_geo_hist(ctx, GeoGrid, GeoNetwork, rng, 50 * S)
-    suite_dist_hist(ctx, Grid, GeoGrid, GeoNetwork, SpatialNetwork, rng, 50 * S)
-    suite_region(ctx, GeoGrid, rng, 40 * S)
-    suite_net_history(ctx, Grid, GeoGrid, GeoNetwork, SpatialNetwork, rng, 20 * S)
+    guarded_suite(ctx, suite_geo_hist, GeoGrid, GeoNetwork, rng, 50 * S)
+    guarded_suite(ctx, suite_dist_hist, Grid, GeoGrid, GeoNetwork, SpatialNetwork, rng, 50 * S)
+    guarded_suite(ctx, suite_region, GeoGrid, rng, 40 * S)
+    guarded_suite(ctx, suite_net_history, Grid, GeoGrid, GeoNetwork, SpatialNetwork, rng, 20 * S)
 
 
 # --------------------------------------------------------------------------
@@ -471,6 +562,18 @@ def suite_kernel_angular(ctx, K, rng, ncases):
 # B. Euclidean kernel, exact squared distances + 1-ulp square root
 # --------------------------------------------------------------------------
 
+def within_one_ulp(dv, s):
+    """|dv - sqrt(s)| <= ulp(dv), decided exactly"""
+    if s == 0:
+        return dv == 0.0
+    if not (dv > 0) or math.isinf(dv):
+        return False
+    u = Fr(float(np.spacing(np.float32(dv))))
+    f = Fr(dv)
+    lo = max(Fr(0), f - u)
+    return lo * lo <= s <= (f + u) * (f + u)
+
+
 def suite_kernel_euclid(ctx, K, rng, ncases, maxdim):
     reqs, outs, meta = [], [], []
     for c in range(ncases):
@@ -490,17 +593,6 @@ def suite_kernel_euclid(ctx, K, rng, ncases, maxdim):
         ctx.count(f"kernel-euclid:d={d}")
         ctx.case(("ke", reqs[-1]), n >= 2,
                  {"suite": "kernel-euclid", "request": reqs[-1]} if n <= 3 and d <= 2 else None)
-
-    def within_one_ulp(dv, s):
-        """|dv - sqrt(s)| <= ulp(dv), decided exactly"""
-        if s == 0:
-            return dv == 0.0
-        if not (dv > 0) or math.isinf(dv):
-            return False
-        u = Fr(float(np.spacing(np.float32(dv))))
-        f = Fr(dv)
-        lo = max(Fr(0), f - u)
-        return lo * lo <= s <= (f + u) * (f + u)
 
     def judge(i, m):
         D, err = outs[i]
@@ -540,87 +632,93 @@ def suite_kernel_euclid(ctx, K, rng, ncases, maxdim):
 def suite_grid_node_number(ctx, Grid, rng, ncases):
     reqs, impl, meta = [], [], []
     for c in range(ncases):
-        n = rng.choice([1, 2, 3, 4, 6, 9, 14])
-        d = rng.randrange(1, 5)
-        span = rng.choice([2, 3, 6])
-        X = [[Fr(rng.randrange(-span, span + 1)) for _ in range(n)] for _ in range(d)]
-        qk = rng.choice(["node", "half", "int", "far"])
-        if qk == "node":
-            j = rng.randrange(n)
-            q = [X[k][j] for k in range(d)]
-        elif qk == "half":
-            q = [Fr(rng.randrange(-2 * span, 2 * span + 1), 2) for _ in range(d)]
-        elif qk == "far":
-            q = [Fr(rng.choice([-50, 50, 0])) for _ in range(d)]
-        else:
-            q = [Fr(rng.randrange(-span, span + 1)) for _ in range(d)]
-        g = Grid(np.arange(2), np.array([[float(v) for v in r] for r in X]).reshape(d, n),
-                 silence_level=3)
-        qf = [float(v) for v in q]
-        qc = rng.choice(["tuple", "list", "f64", "f32", "int"])
-        if qc == "int" and not all(v.is_integer() for v in qf):
-            qc = "tuple"
-        qx = {"tuple": tuple(qf), "list": list(qf), "f64": np.array(qf),
-              "f32": np.array(qf, dtype=np.float32),
-              "int": np.array(qf).astype(np.int64) if qc == "int" else None}[qc]
-        ctx.count(f"grid-node_number:x-as={qc}")
-        try:
-            got = g.node_number(qx)
-            ans = str(int(got))
-        except Exception as e:  # noqa
-            got, ans = None, "raise:" + type(e).__name__
-        if got is not None and rng.random() < 0.3:
-            # twin: grid and query rescaled by the same power of two (exact) -> same node
-            k = rng.choice([-20, -7, 5, 18, 40])
-            g2 = Grid(np.arange(2), np.array([[float(v) for v in r] for r in X]).reshape(d, n)
-                      * 2.0 ** k, silence_level=3)
-            got2 = int(g2.node_number(tuple(v * 2.0 ** k for v in qf)))
-            ctx.count("grid-node_number:scaled-twin")
-            if got2 != int(got):
-                ctx.fail({"kind": "lookup", "class": "Grid", "method": "node_number",
-                          "clause": "power-of-two-scaling"},
-                         f"Grid.node_number returns node {got2} after rescaling grid and query by "
-                         f"2^{k}, node {int(got)} before",
-                         {"space_seq": enc_ratmat(X), "x": enc_rats(q), "scale_log2": k})
-        reqs.append(f"gridnn {d} {n} {enc_ratmat(X)} {enc_rats(q)}")
-        impl.append(ans)
-        s2 = [sum((X[k][i] - q[k]) ** 2 for k in range(d)) for i in range(n)]
-        meta.append((d, n, X, q, s2))
-        ties = s2.count(min(s2)) > 1
-        ctx.count(f"grid-node_number:query={qk}")
-        ctx.count("grid-node_number:ties" if ties else "grid-node_number:unique")
-        ctx.case(("gn", reqs[-1]), len(set(s2)) >= 2,
-                 {"suite": "Grid.node_number", "request": reqs[-1], "answer": ans}
-                 if n <= 3 else None)
-        # oracle: brute-force minimum in exact arithmetic
-        if got is None or not (0 <= int(got) < n) or s2[int(got)] != min(s2):
-            ctx.fail({"kind": "lookup", "class": "Grid", "method": "node_number"},
-                     "Grid.node_number does not return a node at minimal distance",
-                     {"space_seq": enc_ratmat(X), "x": enc_rats(q), "observed": ans,
-                      "squared_distances": enc_rats(s2)})
+        cur = {}
+        with ImplGuard(ctx, "Grid.node_number", cur, [reqs, impl, meta]):
+            n = rng.choice([1, 2, 3, 4, 6, 9, 14])
+            d = rng.choice([1, 2, 3, 4, 5])
+            span = rng.choice([2, 3, 6])
+            X = [[Fr(rng.randrange(-span, span + 1)) for _ in range(n)] for _ in range(d)]
+            qk = rng.choice(["node", "half", "int", "far"])
+            if qk == "node":
+                j = rng.randrange(n)
+                q = [X[k][j] for k in range(d)]
+            elif qk == "half":
+                q = [Fr(rng.randrange(-2 * span, 2 * span + 1), 2) for _ in range(d)]
+            elif qk == "far":
+                q = [Fr(rng.choice([-50, 50, 0])) for _ in range(d)]
+            else:
+                q = [Fr(rng.randrange(-span, span + 1)) for _ in range(d)]
+            cur.update(space_seq=X, x=q)
+            g = Grid(np.arange(2), np.array([[float(v) for v in r] for r in X]).reshape(d, n),
+                     silence_level=3)
+            qf = [float(v) for v in q]
+            qc = rng.choice(["tuple", "list", "f64", "f32", "int"])
+            if qc == "int" and not all(v.is_integer() for v in qf):
+                qc = "tuple"
+            qx = {"tuple": tuple(qf), "list": list(qf), "f64": np.array(qf),
+                  "f32": np.array(qf, dtype=np.float32),
+                  "int": np.array(qf).astype(np.int64) if qc == "int" else None}[qc]
+            ctx.count(f"grid-node_number:x-as={qc}")
+            try:
+                got = g.node_number(qx)
+                ans = str(int(got))
+            except Exception as e:  # noqa
+                got, ans = None, "raise:" + type(e).__name__
+            if got is not None and rng.random() < 0.3:
+                # twin: grid and query rescaled by the same power of two (exact) -> same node
+                k = rng.choice([-20, -7, 5, 18, 40])
+                g2 = Grid(np.arange(2), np.array([[float(v) for v in r] for r in X]).reshape(d, n)
+                          * 2.0 ** k, silence_level=3)
+                got2 = int(g2.node_number(tuple(v * 2.0 ** k for v in qf)))
+                ctx.count("grid-node_number:scaled-twin")
+                if got2 != int(got):
+                    ctx.fail({"kind": "lookup", "class": "Grid", "method": "node_number",
+                              "clause": "power-of-two-scaling"},
+                             f"Grid.node_number returns node {got2} after rescaling grid and query by "
+                             f"2^{k}, node {int(got)} before",
+                             {"space_seq": enc_ratmat(X), "x": enc_rats(q), "scale_log2": k})
+            reqs.append(f"gridnn {d} {n} {enc_ratmat(X)} {enc_rats(q)}")
+            impl.append(ans)
+            s2 = [sum((X[k][i] - q[k]) ** 2 for k in range(d)) for i in range(n)]
+            meta.append((d, n, X, q, s2))
+            ties = s2.count(min(s2)) > 1
+            ctx.count(f"grid-node_number:query={qk}")
+            ctx.count("grid-node_number:ties" if ties else "grid-node_number:unique")
+            ctx.case(("gn", reqs[-1]), len(set(s2)) >= 2,
+                     {"suite": "Grid.node_number", "request": reqs[-1], "answer": ans}
+                     if n <= 3 else None)
+            # oracle: brute-force minimum in exact arithmetic
+            if got is None or not (0 <= int(got) < n) or s2[int(got)] != min(s2):
+                ctx.fail({"kind": "lookup", "class": "Grid", "method": "node_number"},
+                         "Grid.node_number does not return a node at minimal distance",
+                         {"space_seq": enc_ratmat(X), "x": enc_rats(q), "observed": ans,
+                          "squared_distances": enc_rats(s2)})
     ctx.correspond("Lean gridNodeNumber (Rat) == Grid.node_number", reqs, impl)
     # implementation-only stream: generic float coordinates / queries (decisions not exact, so
     # no model comparison): the returned node is at minimal float64 distance up to 1e-12
     for c in range(ncases // 2):
-        n = rng.choice([2, 5, 9, 20])
-        d = rng.randrange(1, 5)
-        X = np.array([[f32(rng.uniform(-10, 10)) for _ in range(n)] for _ in range(d)])
-        j = rng.randrange(n)
-        q = [float(X[k, j]) + rng.choice([0.0, rng.uniform(-1, 1), rng.uniform(-1e-3, 1e-3)])
-             for k in range(d)]
-        g = Grid(np.arange(2), X.reshape(d, n), silence_level=3)
-        dist = [math.sqrt(math.fsum((float(X[k, i]) - q[k]) ** 2 for k in range(d)))
-                for i in range(n)]
-        try:
-            got = int(g.node_number(tuple(q)))
-        except Exception as e:  # noqa
-            got = None
-        ctx.count("grid-node_number:float-stream")
-        ctx.case(("gnf", X.tobytes().hex(), tuple(q)), True)
-        if got is None or not (0 <= got < n) or dist[got] > min(dist) * (1 + 1e-12) + 1e-300:
-            ctx.fail({"kind": "lookup", "class": "Grid", "method": "node_number"},
-                     "Grid.node_number does not return a node at minimal distance",
-                     {"space_seq": X.tolist(), "x": q, "observed": got, "distances": dist})
+        cur = {}
+        with ImplGuard(ctx, "Grid.node_number:float-stream", cur, []):
+            n = rng.choice([2, 5, 9, 20])
+            d = rng.choice([1, 2, 3, 4, 5])
+            X = np.array([[f32(rng.uniform(-10, 10)) for _ in range(n)] for _ in range(d)])
+            j = rng.randrange(n)
+            q = [float(X[k, j]) + rng.choice([0.0, rng.uniform(-1, 1), rng.uniform(-1e-3, 1e-3)])
+                 for k in range(d)]
+            cur.update(space_seq=X, x=q)
+            g = Grid(np.arange(2), X.reshape(d, n), silence_level=3)
+            dist = [math.sqrt(math.fsum((float(X[k, i]) - q[k]) ** 2 for k in range(d)))
+                    for i in range(n)]
+            try:
+                got = int(g.node_number(tuple(q)))
+            except Exception as e:  # noqa
+                got = None
+            ctx.count("grid-node_number:float-stream")
+            ctx.case(("gnf", X.tobytes().hex(), tuple(q)), True)
+            if got is None or not (0 <= got < n) or dist[got] > min(dist) * (1 + 1e-12) + 1e-300:
+                ctx.fail({"kind": "lookup", "class": "Grid", "method": "node_number"},
+                         "Grid.node_number does not return a node at minimal distance",
+                         {"space_seq": X.tolist(), "x": q, "observed": got, "distances": dist})
 
 
 # --------------------------------------------------------------------------
@@ -629,75 +727,82 @@ def suite_grid_node_number(ctx, Grid, rng, ncases):
 
 def suite_rect(ctx, Grid, GeoGrid, rng, ncases):
     reqs, impl = [], []
+    greqs, gimpl = [], []           # round 4: GeoGrid.coord_sequence_from_rect_grid
     shapes = set()
     for c in range(ncases):
-        d = rng.choice([1, 2, 2, 2, 3, 3, 4])
-        sizes = [rng.choice([0, 1, 2, 2, 3, 3, 4]) if rng.random() < 0.9 else 5
-                 for _ in range(d)]
-        if c < 60:      # systematic small shapes first
-            sizes = [(c // (4 ** k)) % 4 for k in range(3)][: 1 + c % 3]
-            d = len(sizes)
-        axes = []
-        base = 0
-        for s in sizes:
-            vals = rng.sample(range(base, base + 40), s)    # distinct values, distinct per axis
-            if rng.random() < 0.5:
-                vals.sort()
-            axes.append(vals)
-            base += 100
-        shapes.add(tuple(sizes))
-        try:
-            seq = Grid.coord_sequence_from_rect_grid(
-                [np.array(a, dtype=np.int64) for a in axes])
-            seq = np.asarray(seq)
-            if seq.ndim != 2 or seq.shape[0] != d:
-                ans = f"shape:{seq.shape}"
-            else:
-                ans = ";".join(enc_ints(r) for r in seq)
-        except Exception as e:  # noqa
-            seq, ans = None, "raise:" + type(e).__name__
-        reqs.append("rect " + (";".join(enc_ints(a) for a in axes)))
-        impl.append(ans)
-        nontriv = sum(1 for s in sizes if s >= 2) >= 2
-        ctx.count(f"rect:dims={d}")
-        ctx.count("rect:some-axis-empty" if 0 in sizes else "rect:all-axes-nonempty")
-        ctx.case(("rect", reqs[-1]), nontriv,
-                 {"suite": "coord_sequence_from_rect_grid", "axes": axes, "answer": ans}
-                 if nontriv and len(ans) < 200 else None)
-        # oracle: the nodes are exactly the Cartesian product, each element once
-        exp = Counter(itertools.product(*axes))
-        got = Counter(map(tuple, np.asarray(seq).T.tolist())) if seq is not None and \
-            np.asarray(seq).ndim == 2 else None
-        if got != exp:
-            ctx.fail({"kind": "rect", "class": "Grid", "method": "coord_sequence_from_rect_grid"},
-                     "nodes of the rectangular grid are not exactly the Cartesian product of the axes",
-                     {"space_grid": axes, "observed": ans})
-        if d == 2:
-            # GeoGrid variant and the constructors built on it
-            la = np.array(axes[0], dtype=float)
-            lo = np.array(axes[1], dtype=float)
+        cur = {}
+        with ImplGuard(ctx, "rect", cur, [reqs, impl, greqs, gimpl]):
+            d = rng.choice([1, 2, 2, 2, 3, 3, 4])
+            sizes = [rng.choice([0, 1, 2, 2, 3, 3, 4]) if rng.random() < 0.9 else 5
+                     for _ in range(d)]
+            if c < 60:      # systematic small shapes first
+                sizes = [(c // (4 ** k)) % 4 for k in range(3)][: 1 + c % 3]
+                d = len(sizes)
+            axes = []
+            base = 0
+            for s in sizes:
+                vals = rng.sample(range(base, base + 40), s)    # distinct values, distinct per axis
+                if rng.random() < 0.5:
+                    vals.sort()
+                axes.append(vals)
+                base += 100
+            shapes.add(tuple(sizes))
+            cur.update(space_grid=axes)
             try:
-                ls, os_ = GeoGrid.coord_sequence_from_rect_grid(la, lo)
-                ok = seq is not None and np.array_equal(ls, seq[0]) and np.array_equal(os_, seq[1])
-                if sizes[0] and sizes[1]:
-                    gg = GeoGrid.RegularGrid(np.arange(2), (la, lo), silence_level=3)
-                    ok = ok and np.array_equal(gg.lat_sequence(), seq[0].astype(np.float32)) \
-                        and np.array_equal(gg.lon_sequence(), seq[1].astype(np.float32)) \
-                        and gg.N == sizes[0] * sizes[1]
-                    g2 = Grid.RegularGrid(np.arange(2), [la, lo], silence_level=3)
-                    ok = ok and np.array_equal(g2.sequence(0), seq[0].astype(np.float32)) \
-                        and np.array_equal(g2.sequence(1), seq[1].astype(np.float32))
-                    ctx.count("rect:RegularGrid-objects")
+                seq = Grid.coord_sequence_from_rect_grid(
+                    [np.array(a, dtype=np.int64) for a in axes])
+                seq = np.asarray(seq)
+                if seq.ndim != 2 or seq.shape[0] != d:
+                    ans = f"shape:{seq.shape}"
+                else:
+                    ans = ";".join(enc_ints(r) for r in seq)
             except Exception as e:  # noqa
-                ok = False
-                ans = "raise:" + type(e).__name__
-            if not ok:
-                ctx.fail({"kind": "rect", "class": "GeoGrid", "method": "RegularGrid"},
-                         "GeoGrid.coord_sequence_from_rect_grid / RegularGrid lat-lon sequences "
-                         "differ from the Cartesian product of (lat_grid, lon_grid)",
-                         {"lat_grid": axes[0], "lon_grid": axes[1], "observed": ans})
+                seq, ans = None, "raise:" + type(e).__name__
+            reqs.append("rect " + (";".join(enc_ints(a) for a in axes)))
+            impl.append(ans)
+            nontriv = sum(1 for s in sizes if s >= 2) >= 2
+            ctx.count(f"rect:dims={d}")
+            ctx.count("rect:some-axis-empty" if 0 in sizes else "rect:all-axes-nonempty")
+            ctx.case(("rect", reqs[-1]), nontriv,
+                     {"suite": "coord_sequence_from_rect_grid", "axes": axes, "answer": ans}
+                     if nontriv and len(ans) < 200 else None)
+            # oracle: the nodes are exactly the Cartesian product, each element once
+            exp = Counter(itertools.product(*axes))
+            got = Counter(map(tuple, np.asarray(seq).T.tolist())) if seq is not None and \
+                np.asarray(seq).ndim == 2 else None
+            if got != exp:
+                ctx.fail({"kind": "rect", "class": "Grid", "method": "coord_sequence_from_rect_grid"},
+                         "nodes of the rectangular grid are not exactly the Cartesian product of the axes",
+                         {"space_grid": axes, "observed": ans})
+            if d == 2:
+                # GeoGrid variant and the constructors built on it
+                la = np.array(axes[0], dtype=float)
+                lo = np.array(axes[1], dtype=float)
+                try:
+                    ls, os_ = GeoGrid.coord_sequence_from_rect_grid(la, lo)
+                    greqs.append(f"georect {enc_ints(axes[0])} {enc_ints(axes[1])}")
+                    gimpl.append(enc_ints(ls) + ";" + enc_ints(os_))
+                    ok = seq is not None and np.array_equal(ls, seq[0]) and np.array_equal(os_, seq[1])
+                    if sizes[0] and sizes[1]:
+                        gg = GeoGrid.RegularGrid(np.arange(2), (la, lo), silence_level=3)
+                        ok = ok and np.array_equal(gg.lat_sequence(), seq[0].astype(np.float32)) \
+                            and np.array_equal(gg.lon_sequence(), seq[1].astype(np.float32)) \
+                            and gg.N == sizes[0] * sizes[1]
+                        g2 = Grid.RegularGrid(np.arange(2), [la, lo], silence_level=3)
+                        ok = ok and np.array_equal(g2.sequence(0), seq[0].astype(np.float32)) \
+                            and np.array_equal(g2.sequence(1), seq[1].astype(np.float32))
+                        ctx.count("rect:RegularGrid-objects")
+                except Exception as e:  # noqa
+                    ok = False
+                    ans = "raise:" + type(e).__name__
+                if not ok:
+                    ctx.fail({"kind": "rect", "class": "GeoGrid", "method": "RegularGrid"},
+                             "GeoGrid.coord_sequence_from_rect_grid / RegularGrid lat-lon sequences "
+                             "differ from the Cartesian product of (lat_grid, lon_grid)",
+                             {"lat_grid": axes[0], "lon_grid": axes[1], "observed": ans})
     ctx.extra["rect_shapes"] = len(shapes)
     ctx.correspond("Lean rectGrid == Grid.coord_sequence_from_rect_grid", reqs, impl)
+    ctx.correspond("Lean geoRectGrid == GeoGrid.coord_sequence_from_rect_grid", greqs, gimpl)
 
 
 # --------------------------------------------------------------------------
@@ -766,67 +871,74 @@ def suite_angular(ctx, GeoGrid, rng, ncases, K):
     eta = {"all": 0.0, "end": 0.0, "pairs": 0, "end_pairs": 0}
     tab = {"delta": 0.0, "eps_lat": 0.0, "eps_lon": 0.0, "round": 0.0, "entries": 0, "pairs": 0}
     for c in range(ncases):
-        n = rng.choice([1, 2, 3, 5, 8, 12, 16])
-        kind, lat, lon = gen_geo_coords(rng, n)
-        n = len(lat)
-        g = GeoGrid(np.arange(2), np.array(lat), np.array(lon), silence_level=3)
-        lat32 = g.lat_sequence()
-        lon32 = g.lon_sequence()
-        try:
-            D = np.array(g.angular_distance())
-            D2 = np.array(g.distance())
-        except Exception as e:  # noqa
-            ctx.fail({"kind": "angular", "method": "angular_distance", "error": type(e).__name__},
-                     f"angular_distance raised {type(e).__name__}: {e}", {"lat": lat, "lon": lon})
-            continue
-        R = gc_matrix(lat32, lon32)
-        ctx.count(f"angular:{kind}")
-        offd = R[~np.eye(n, dtype=bool)]
-        if n >= 2:
-            ctx.count("angular:has-coincident-pair", int((offd < 1e-9).any()))
-            ctx.count("angular:has-near-coincident-pair",
-                      int(((offd >= 1e-9) & (offd < 1e-2)).any()))
-            ctx.count("angular:has-antipodal-pair", int((offd > math.pi - 1e-6).any()))
-            ctx.count("angular:has-near-antipodal-pair",
-                      int(((offd > math.pi - 1e-2) & (offd <= math.pi - 1e-6)).any()))
-            ctx.count("angular:has-pole", int(any(abs(v) == 90 for v in lat32)))
-        ctx.case(("ang", tuple(lat), tuple(lon)), n >= 2,
-                 {"suite": "GeoGrid.angular_distance", "lat": lat, "lon": lon} if n <= 3 else None)
-        viol = ang_violations(D, R)
-        if not np.isnan(D).any() and D.shape == R.shape:
-            err = np.abs(D.astype(np.float64) - R)
-            stats["abs"] = max(stats["abs"], float(err.max()))
-            mid = (R >= MID) & (R <= math.pi - MID)
-            if mid.any():
-                stats["rel"] = max(stats["rel"], float((err[mid] / R[mid]).max()))
-            stats["pairs"] += n * n
-        if not np.array_equal(D, D2, equal_nan=True):
-            viol.append(("distance-alias", "GeoGrid.distance() != angular_distance()"))
-        viol += angular_twins(ctx, GeoGrid, rng, g, lat, lon, D)
-        # the error of the stored cosine (hypotheses of theorem angular_entry_error_combined)
-        if n and not np.isnan(D).any():
-            C32 = np.zeros((n, n), dtype=FIELD)
-            K._calculate_angular_distance(to_cy(g.cos_lat(), FIELD), to_cy(g.sin_lat(), FIELD),
-                                          to_cy(g.cos_lon(), FIELD), to_cy(g.sin_lon(), FIELD),
-                                          C32, n)
-            dc = np.abs(C32.astype(np.float64) - cos_matrix(lat32, lon32))
-            Dd = D.astype(np.float64)
-            endz = ~((R >= MEND) & (R <= math.pi - MEND) & (Dd >= MEND) & (Dd <= math.pi - MEND))
-            eta["all"] = max(eta["all"], float(dc.max()))
-            eta["pairs"] += n * n
-            if endz.any():
-                eta["end"] = max(eta["end"], float(dc[endz].max()))
-                eta["end_pairs"] += int(endz.sum())
-            viol += kernel_rounding(ctx, g, C32, n, tab)
-        for clause, what in viol:
-            ctx.fail({"kind": "angular", "class": "GeoGrid", "method": "angular_distance",
-                      "clause": clause},
-                     f"GeoGrid.angular_distance: {what}",
-                     {"lat": lat, "lon": lon, "clause": clause, "what": what,
-                      "observed": D.astype(float).tolist(), "closed_form": R.tolist()})
-        reqs.append(f"angdist {n} {enc_rats(map(float, lat32))} {enc_rats(map(float, lon32))}")
-        outs.append(D)
-        metas.append((lat, lon))
+        cur = {}
+        with ImplGuard(ctx, "GeoGrid.angular_distance", cur, [reqs, outs, metas]):
+            n = rng.choice([1, 2, 3, 5, 8, 12, 16])
+            if c == 1:
+                n = 130          # one grid beyond the range of 8-bit loop counters / indices
+                ctx.count("angular:N=130")
+            kind, lat, lon = gen_geo_coords(rng, n)
+            n = len(lat)
+            cur.update(lat=lat, lon=lon)
+            g = GeoGrid(np.arange(2), np.array(lat), np.array(lon), silence_level=3)
+            lat32 = g.lat_sequence()
+            lon32 = g.lon_sequence()
+            try:
+                D = np.array(g.angular_distance())
+                D2 = np.array(g.distance())
+            except Exception as e:  # noqa
+                ctx.fail({"kind": "angular", "method": "angular_distance", "error": type(e).__name__},
+                         f"angular_distance raised {type(e).__name__}: {e}", {"lat": lat, "lon": lon})
+                continue
+            R = gc_matrix(lat32, lon32)
+            ctx.count(f"angular:{kind}")
+            offd = R[~np.eye(n, dtype=bool)]
+            if n >= 2:
+                ctx.count("angular:has-coincident-pair", int((offd < 1e-9).any()))
+                ctx.count("angular:has-near-coincident-pair",
+                          int(((offd >= 1e-9) & (offd < 1e-2)).any()))
+                ctx.count("angular:has-antipodal-pair", int((offd > math.pi - 1e-6).any()))
+                ctx.count("angular:has-near-antipodal-pair",
+                          int(((offd > math.pi - 1e-2) & (offd <= math.pi - 1e-6)).any()))
+                ctx.count("angular:has-pole", int(any(abs(v) == 90 for v in lat32)))
+            ctx.case(("ang", tuple(lat), tuple(lon)), n >= 2,
+                     {"suite": "GeoGrid.angular_distance", "lat": lat, "lon": lon} if n <= 3 else None)
+            viol = ang_violations(D, R)
+            if not np.isnan(D).any() and D.shape == R.shape:
+                err = np.abs(D.astype(np.float64) - R)
+                stats["abs"] = max(stats["abs"], float(err.max()))
+                mid = (R >= MID) & (R <= math.pi - MID)
+                if mid.any():
+                    stats["rel"] = max(stats["rel"], float((err[mid] / R[mid]).max()))
+                stats["pairs"] += n * n
+            if not np.array_equal(D, D2, equal_nan=True):
+                viol.append(("distance-alias", "GeoGrid.distance() != angular_distance()"))
+            viol += angular_twins(ctx, GeoGrid, rng, g, lat, lon, D)
+            # the error of the stored cosine (hypotheses of theorem angular_entry_error_combined)
+            if n and not np.isnan(D).any():
+                C32 = np.zeros((n, n), dtype=FIELD)
+                K._calculate_angular_distance(to_cy(g.cos_lat(), FIELD), to_cy(g.sin_lat(), FIELD),
+                                              to_cy(g.cos_lon(), FIELD), to_cy(g.sin_lon(), FIELD),
+                                              C32, n)
+                dc = np.abs(C32.astype(np.float64) - cos_matrix(lat32, lon32))
+                Dd = D.astype(np.float64)
+                endz = ~((R >= MEND) & (R <= math.pi - MEND) & (Dd >= MEND) & (Dd <= math.pi - MEND))
+                eta["all"] = max(eta["all"], float(dc.max()))
+                eta["pairs"] += n * n
+                if endz.any():
+                    eta["end"] = max(eta["end"], float(dc[endz].max()))
+                    eta["end_pairs"] += int(endz.sum())
+                viol += kernel_rounding(ctx, g, C32, n, tab)
+            for clause, what in viol:
+                ctx.fail({"kind": "angular", "class": "GeoGrid", "method": "angular_distance",
+                          "clause": clause},
+                         f"GeoGrid.angular_distance: {what}",
+                         {"lat": lat, "lon": lon, "clause": clause, "what": what,
+                          "observed": D.astype(float).tolist(), "closed_form": R.tolist()})
+            if n <= 16:     # the model's matrices are closures: O(N^4) to read out (oracle only beyond)
+                reqs.append(f"angdist {n} {enc_rats(map(float, lat32))} {enc_rats(map(float, lon32))}")
+                outs.append(D)
+                metas.append((lat, lon))
 
     def judge(i, m):
         Mm = np.array(dec_floatmat(m), dtype=np.float64)
@@ -876,7 +988,7 @@ def suite_angular(ctx, GeoGrid, rng, ncases, K):
         "max_abs_err_log2": round(math.log2(stats["abs"]), 2) if stats["abs"] else None,
         "max_rel_err_mid_log2": round(math.log2(stats["rel"]), 2) if stats["rel"] else None,
         "bounds_log2": {"abs": -10, "rel_mid": -17}}
-    custom_correspond(ctx, "Lean angularDistance (Float) ~ GeoGrid.angular_distance "
+    custom_correspond(ctx, "Lean gridDistance .geo (Float, GeoGrid object) ~ GeoGrid.angular_distance / distance "
                       "(abs < 2^-10, rel <= 2^-17 on [0.25, pi-0.25])", reqs, judge)
 
 
@@ -886,36 +998,66 @@ def suite_angular(ctx, GeoGrid, rng, ncases, K):
 
 def suite_euclid(ctx, Grid, rng, ncases, maxdim):
     reqs, outs = [], []
+    xreqs, xouts = [], []           # round 4: object level, exact squared distances
     for c in range(ncases):
-        n = rng.choice([1, 2, 3, 5, 8, 12])
-        d = rng.randrange(1, maxdim + 1)
-        kind, X = gen_euc_coords(rng, d, n)
-        g = Grid(np.arange(2), np.array(X, dtype=np.float64).reshape(d, n), silence_level=3)
-        X32 = g._grid["space"]
-        try:
-            D = np.array(g.euclidean_distance())
-            D2 = np.array(g.distance())
-        except Exception as e:  # noqa
-            ctx.fail({"kind": "euclid", "method": "euclidean_distance", "error": type(e).__name__},
-                     f"euclidean_distance raised {type(e).__name__}: {e}", {"space_seq": X})
-            continue
-        R = euc_matrix(X32)
-        ctx.count(f"euclid:{kind}")
-        ctx.count(f"euclid:d={d}")
-        ctx.case(("euc", d, n, str(X)), n >= 2,
-                 {"suite": "Grid.euclidean_distance", "space_seq": X} if n <= 3 and d <= 2 else None)
-        viol = euc_violations(D, R)
-        if not np.array_equal(D, D2, equal_nan=True):
-            viol.append(("distance-alias", "Grid.distance() != euclidean_distance()"))
-        viol += euclid_twins(ctx, Grid, rng, g, X, d, n, D, kind)
-        for clause, what in viol:
-            ctx.fail({"kind": "euclid", "class": "Grid", "method": "euclidean_distance",
-                      "clause": clause},
-                     f"Grid.euclidean_distance: {what}",
-                     {"space_seq": X, "clause": clause, "what": what,
-                      "observed": D.astype(float).tolist(), "closed_form": R.tolist()})
-        reqs.append(f"eucld {d} {n} {enc_ratmat(X32.astype(np.float64).tolist())}")
-        outs.append(D)
+        cur = {}
+        with ImplGuard(ctx, "Grid.euclidean_distance", cur, [reqs, outs, xreqs, xouts]):
+            n = rng.choice([1, 2, 3, 5, 8, 12])
+            if c == 1:
+                n = 130          # one grid beyond the range of 8-bit loop counters / indices
+                ctx.count("euclid:N=130")
+            d = rng.randrange(1, maxdim + 1)
+            kind, X = gen_euc_coords(rng, d, n)
+            if d <= 3 and rng.random() < 0.12:
+                # a regular grid built by the public constructor from its axes (1-3 axes)
+                axes = [sorted(rng.sample(range(-6, 7), rng.choice([1, 2, 3]))) for _ in range(d)]
+                cur.update(space_grid=axes)
+                g = Grid.RegularGrid(np.arange(2), [np.array(a, dtype=float) for a in axes],
+                                     silence_level=3)
+                kind, n = "regular", int(g.N)
+                X = np.asarray(g._grid["space"], dtype=np.float64).reshape(d, n).tolist()
+                if sorted(zip(*X)) != sorted(itertools.product(*axes)):
+                    ctx.fail({"kind": "rect", "class": "Grid", "method": "RegularGrid"},
+                             "nodes of Grid.RegularGrid are not exactly the Cartesian product of "
+                             "the axes", {"space_grid": axes, "observed": X})
+            cur.update(space_seq=X)
+            if kind != "regular":
+                g = Grid(np.arange(2), np.array(X, dtype=np.float64).reshape(d, n), silence_level=3)
+            X32 = g._grid["space"]
+            try:
+                D = np.array(g.euclidean_distance())
+                D2 = np.array(g.distance())
+            except Exception as e:  # noqa
+                ctx.fail({"kind": "euclid", "method": "euclidean_distance", "error": type(e).__name__},
+                         f"euclidean_distance raised {type(e).__name__}: {e}", {"space_seq": X})
+                continue
+            R = euc_matrix(X32)
+            ctx.count(f"euclid:{kind}")
+            ctx.count(f"euclid:d={d}")
+            ctx.case(("euc", d, n, str(X)), n >= 2,
+                     {"suite": "Grid.euclidean_distance", "space_seq": X} if n <= 3 and d <= 2 else None)
+            viol = euc_violations(D, R)
+            if not np.array_equal(D, D2, equal_nan=True):
+                viol.append(("distance-alias", "Grid.distance() != euclidean_distance()"))
+            viol += euclid_twins(ctx, Grid, rng, g, X, d, n, D, kind)
+            for clause, what in viol:
+                ctx.fail({"kind": "euclid", "class": "Grid", "method": "euclidean_distance",
+                          "clause": clause},
+                         f"Grid.euclidean_distance: {what}",
+                         {"space_seq": X, "clause": clause, "what": what,
+                          "observed": D.astype(float).tolist(), "closed_form": R.tolist()})
+            # the model is asked about the array the object holds (its shape, not the generator's)
+            sd, sn = (int(v) for v in X32.shape)
+            if sn > 27:     # the model's matrices are closures: O(N^4) to read out (oracle only beyond)
+                continue
+            reqs.append(f"eucld {sd} {sn} {enc_ratmat(X32.astype(np.float64).tolist())}")
+            outs.append(D)
+            if kind in ("lattice", "regular"):
+                # small integers: squares and their sums are exact in float32, so the model's
+                # exact squared distances bracket the stored value to one ulp of the root
+                xreqs.append(f"eucobj2 {sd} {sn} {enc_ratmat(X32.astype(np.float64).tolist())}")
+                xouts.append(D)
+                ctx.count(f"euclid:exact-object-level:d={d}")
 
     def judge(i, m):
         Mm = np.array(dec_floatmat(m), dtype=np.float64)
@@ -930,8 +1072,24 @@ def suite_euclid(ctx, Grid, rng, ncases, maxdim):
             return f"[{a},{b}] model {Mm[a, b]!r} impl {D[a, b]!r}"
         return None
 
-    custom_correspond(ctx, "Lean euclideanDistance (Float) ~ Grid.euclidean_distance "
-                      "(rel <= 2^-20)", reqs, judge)
+    custom_correspond(ctx, "Lean gridDistance .euclid (Float, object of shape (d, n)) ~ "
+                      "Grid.euclidean_distance (rel <= 2^-20)", reqs, judge)
+
+    def judge_x(i, m):
+        S2 = dec_ratmat(m)
+        D = xouts[i]
+        if len(S2) != D.shape[0] or D.ndim != 2 or D.shape[0] != D.shape[1]:
+            return f"shape model {len(S2)} impl {D.shape}"
+        for a in range(len(S2)):
+            for b in range(len(S2)):
+                if not within_one_ulp(float(D[a, b]), S2[a][b]):
+                    return (f"entry [{a},{b}]: impl {float(D[a, b])!r} not within 1 ulp of "
+                            f"sqrt(model {S2[a][b]})")
+        return None
+
+    custom_correspond(ctx, "Lean gridEuclideanDistance (Rat, squared, object level) == "
+                      "Grid.euclidean_distance on integer grids of dimension 1-5 / regular grids "
+                      "(sqrt within 1 float32 ulp)", xreqs, judge_x)
 
 
 # --------------------------------------------------------------------------
@@ -941,76 +1099,80 @@ def suite_euclid(ctx, Grid, rng, ncases, maxdim):
 def suite_geo_node_number(ctx, GeoGrid, rng, ngrids):
     reqs, impl, guard = [], [], []
     for c in range(ngrids):
-        n = rng.choice([1, 2, 4, 7, 12])
-        kind, lat, lon = gen_geo_coords(rng, n)
-        n = len(lat)
-        g = GeoGrid(np.arange(2), np.array(lat), np.array(lon), silence_level=3)
-        lat32 = [float(v) for v in g.lat_sequence()]
-        lon32 = [float(v) for v in g.lon_sequence()]
-        la = [math.radians(v) for v in lat32]
-        lo = [math.radians(v) for v in lon32]
-        for qn in range(6):
-            qk = rng.choice(["node", "near", "random", "pole", "antimeridian"])
-            j = rng.randrange(n)
-            if qk == "node":
-                ql, qo = lat32[j], lon32[j]
-            elif qk == "near":
-                e = rng.choice([1.0, 0.25, 2.0 ** -6])
-                ql = max(-90.0, min(90.0, lat32[j] + rng.uniform(-e, e)))
-                qo = lon32[j] + rng.uniform(-e, e)
-            elif qk == "pole":
-                ql, qo = rng.choice([90.0, -90.0]), f32(rng.uniform(-180, 180))
-            elif qk == "antimeridian":
-                ql, qo = f32(rng.uniform(-90, 90)), rng.choice([180.0, -180.0])
-            else:
-                ql, qo = f32(rng.uniform(-90, 90)), f32(rng.uniform(-180, 360))
-            qt = rng.choice(["float", "float", "f32", "f64", "int"])
-            if qt == "f32":
-                ql, qo = f32(ql), f32(qo)
-                qa, qb = np.float32(ql), np.float32(qo)
-            elif qt == "f64":
-                qa, qb = np.float64(ql), np.float64(qo)
-            elif qt == "int":
-                ql, qo = float(round(ql)), float(round(qo))
-                qa, qb = int(ql), int(qo)
-            else:
-                qa, qb = ql, qo
-            ctx.count(f"geo-node_number:query-type={qt}")
-            try:
-                got = int(g.node_number(lat_node=qa, lon_node=qb))
-                ans = str(got)
-            except Exception as e:  # noqa
-                got, ans = None, "raise:" + type(e).__name__
-            dist = [gc_atan2(la[i], lo[i], math.radians(ql), math.radians(qo)) for i in range(n)]
-            dmin = min(dist)
-            ctx.count(f"geo-node_number:query={qk}")
-            ctx.case(("geonn", tuple(lat), tuple(lon), ql, qo), len(set(dist)) >= 2,
-                     {"suite": "GeoGrid.node_number", "lat": lat, "lon": lon,
-                      "query": [ql, qo], "answer": ans} if n <= 2 else None)
-            bad = None
-            if got is None or not (0 <= got < n):
-                bad = "no valid node index returned"
-            elif dist[got] > dmin + 2 * ABS_ANG:
-                bad = (f"returned node {got} at closed-form distance {dist[got]!r}, "
-                       f"nearest node at {dmin!r}")
-            else:
-                first = min(i for i in range(n)
-                            if lat32[i] == lat32[got] and lon32[i] == lon32[got])
-                if first != got:
-                    bad = (f"returned node {got} although node {first} has identical "
-                           "coordinates (argmin must return the first minimiser)")
-            if bad:
-                ctx.fail({"kind": "lookup", "class": "GeoGrid", "method": "node_number"},
-                         "GeoGrid.node_number: " + bad,
-                         {"lat": lat, "lon": lon, "lat_node": ql, "lon_node": qo,
-                          "observed": ans, "closed_form_distances": dist})
-            # model comparison only where the decision has a clear margin
-            others = [dist[i] for i in range(n)
-                      if not (lat32[i] == lat32[got or 0] and lon32[i] == lon32[got or 0])]
-            margin = (min(others) - dmin) if others else math.inf
-            reqs.append(f"geonn {n} {enc_rats(lat32)} {enc_rats(lon32)} {enc_rat(ql)} {enc_rat(qo)}")
-            impl.append(ans)
-            guard.append(margin > 4 * ABS_ANG and got is not None and dist[got] == dmin)
+        cur = {}
+        with ImplGuard(ctx, "GeoGrid.node_number", cur, [reqs, impl, guard]):
+            n = rng.choice([1, 2, 4, 7, 12])
+            kind, lat, lon = gen_geo_coords(rng, n)
+            n = len(lat)
+            cur.update(lat=lat, lon=lon)
+            g = GeoGrid(np.arange(2), np.array(lat), np.array(lon), silence_level=3)
+            lat32 = [float(v) for v in g.lat_sequence()]
+            lon32 = [float(v) for v in g.lon_sequence()]
+            la = [math.radians(v) for v in lat32]
+            lo = [math.radians(v) for v in lon32]
+            for qn in range(6):
+                qk = rng.choice(["node", "near", "random", "pole", "antimeridian"])
+                j = rng.randrange(n)
+                if qk == "node":
+                    ql, qo = lat32[j], lon32[j]
+                elif qk == "near":
+                    e = rng.choice([1.0, 0.25, 2.0 ** -6])
+                    ql = max(-90.0, min(90.0, lat32[j] + rng.uniform(-e, e)))
+                    qo = lon32[j] + rng.uniform(-e, e)
+                elif qk == "pole":
+                    ql, qo = rng.choice([90.0, -90.0]), f32(rng.uniform(-180, 180))
+                elif qk == "antimeridian":
+                    ql, qo = f32(rng.uniform(-90, 90)), rng.choice([180.0, -180.0])
+                else:
+                    ql, qo = f32(rng.uniform(-90, 90)), f32(rng.uniform(-180, 360))
+                qt = rng.choice(["float", "float", "f32", "f64", "int"])
+                if qt == "f32":
+                    ql, qo = f32(ql), f32(qo)
+                    qa, qb = np.float32(ql), np.float32(qo)
+                elif qt == "f64":
+                    qa, qb = np.float64(ql), np.float64(qo)
+                elif qt == "int":
+                    ql, qo = float(round(ql)), float(round(qo))
+                    qa, qb = int(ql), int(qo)
+                else:
+                    qa, qb = ql, qo
+                cur.update(lat_node=ql, lon_node=qo)
+                ctx.count(f"geo-node_number:query-type={qt}")
+                try:
+                    got = int(g.node_number(lat_node=qa, lon_node=qb))
+                    ans = str(got)
+                except Exception as e:  # noqa
+                    got, ans = None, "raise:" + type(e).__name__
+                dist = [gc_atan2(la[i], lo[i], math.radians(ql), math.radians(qo)) for i in range(n)]
+                dmin = min(dist)
+                ctx.count(f"geo-node_number:query={qk}")
+                ctx.case(("geonn", tuple(lat), tuple(lon), ql, qo), len(set(dist)) >= 2,
+                         {"suite": "GeoGrid.node_number", "lat": lat, "lon": lon,
+                          "query": [ql, qo], "answer": ans} if n <= 2 else None)
+                bad = None
+                if got is None or not (0 <= got < n):
+                    bad = "no valid node index returned"
+                elif dist[got] > dmin + 2 * ABS_ANG:
+                    bad = (f"returned node {got} at closed-form distance {dist[got]!r}, "
+                           f"nearest node at {dmin!r}")
+                else:
+                    first = min(i for i in range(n)
+                                if lat32[i] == lat32[got] and lon32[i] == lon32[got])
+                    if first != got:
+                        bad = (f"returned node {got} although node {first} has identical "
+                               "coordinates (argmin must return the first minimiser)")
+                if bad:
+                    ctx.fail({"kind": "lookup", "class": "GeoGrid", "method": "node_number"},
+                             "GeoGrid.node_number: " + bad,
+                             {"lat": lat, "lon": lon, "lat_node": ql, "lon_node": qo,
+                              "observed": ans, "closed_form_distances": dist})
+                # model comparison only where the decision has a clear margin
+                others = [dist[i] for i in range(n)
+                          if not (lat32[i] == lat32[got or 0] and lon32[i] == lon32[got or 0])]
+                margin = (min(others) - dmin) if others else math.inf
+                reqs.append(f"geonn {n} {enc_rats(lat32)} {enc_rats(lon32)} {enc_rat(ql)} {enc_rat(qo)}")
+                impl.append(ans)
+                guard.append(margin > 4 * ABS_ANG and got is not None and dist[got] == dmin)
     kept = [i for i in range(len(reqs)) if guard[i]]
     ctx.count("geo-node_number:model-compared", len(kept))
     ctx.count("geo-node_number:near-tie-oracle-only", len(reqs) - len(kept))
@@ -1037,110 +1199,113 @@ def rand_adj(rng, n, directed):
 def suite_weights(ctx, GeoGrid, GeoNetwork, rng, ncases):
     wreqs, wimpl, areqs, aimpl = [], [], [], []
     for c in range(ncases):
-        n = rng.choice([2, 3, 5, 8])
-        lat = [f32(rng.uniform(-89, 89)) for _ in range(n)]
-        if rng.random() < 0.3:
-            lat[0] = rng.choice([90.0, -90.0, 0.0])
-        lon = [f32(rng.uniform(-180, 180)) for _ in range(n)]
-        directed = rng.random() < 0.5
-        A = rand_adj(rng, n, directed)
-        ak, lat_arr = twin_1d(rng, lat) if rng.random() < 0.4 else ("f64", np.array(lat))
-        ctx.count(f"weights:lat-array={ak}")
-        g = GeoGrid(np.arange(2), lat_arr, np.array(lon), silence_level=3)
-        cosl = [math.cos(math.radians(v)) for v in lat]
-        wt = rng.choice(["surface", "irrigation", None])
-        via = rng.choice(["init", "setter", "history", "history"])
-        try:
-            if via == "init":
-                net = GeoNetwork(g, adjacency=A, directed=directed, node_weight_type=wt,
-                                 silence_level=3)
-            elif via == "setter":
-                net = GeoNetwork(g, adjacency=A, directed=directed,
-                                 node_weight_type=rng.choice(["surface", "irrigation", None]),
-                                 silence_level=3)
-                net.set_node_weight_type(wt)
-            else:
-                # a history of weight types on one object, with measures that cache values
-                # derived from the weights evaluated in between
-                net = GeoNetwork(g, adjacency=A, directed=directed,
-                                 node_weight_type=rng.choice(["surface", "irrigation", None]),
-                                 silence_level=3)
-                steps = [rng.choice(["surface", "irrigation", None, "invalid-name"])
-                         for _ in range(rng.randrange(2, 5))] + [wt]
-                for st in steps:
-                    net.area_weighted_connectivity(), net.nsi_degree()
-                    net.set_node_weight_type(st)
-                    ws = net.node_weights
-                    es = {"surface": cosl, "irrigation": [v * v for v in cosl]}.get(st, [1.0] * n)
-                    if ws is None or len(ws) != n or \
-                            any(abs(float(ws[i]) - es[i]) > TOL_W for i in range(n)) or \
-                            abs(net.total_node_weight - math.fsum(es)) > n * TOL_W:
-                        ctx.fail({"kind": "weights", "class": "GeoNetwork",
-                                  "method": "set_node_weight_type", "node_weight_type": str(st),
-                                  "via": "history"},
-                                 f"after the history {steps} of set_node_weight_type calls the "
-                                 f"weights for {st!r} are not cos(lat_i) / cos^2(lat_i) / 1",
-                                 {"lat": lat, "history": [str(x) for x in steps], "failed_at": str(st),
-                                  "expected": es,
-                                  "observed": None if ws is None else [float(v) for v in ws]})
-                        break
-                ctx.count("weights:history-steps", len(steps))
-            w = net.node_weights
-        except Exception as e:  # noqa
-            ctx.fail({"kind": "weights", "class": "GeoNetwork", "error": type(e).__name__},
-                     f"GeoNetwork(node_weight_type={wt!r}) raised {type(e).__name__}: {e}",
-                     {"lat": lat, "node_weight_type": wt, "via": via})
-            continue
-        exp = {"surface": cosl, "irrigation": [v * v for v in cosl], None: [1.0] * n}[wt]
-        ctx.count(f"weights:type={wt}:{via}")
-        ctx.case(("w", tuple(lat), wt, via, A.tobytes().hex(), directed), len(set(lat)) >= 2,
-                 {"suite": "GeoNetwork.node_weights", "lat": lat, "node_weight_type": wt}
-                 if n <= 3 else None)
-        okw = w is not None and len(w) == n and \
-            all(abs(float(w[i]) - exp[i]) <= TOL_W for i in range(n))
-        if not okw:
-            ctx.fail({"kind": "weights", "class": "GeoNetwork", "method": "set_node_weight_type",
-                      "node_weight_type": str(wt)},
-                     f"node_weights for node_weight_type={wt!r} are not "
-                     "cos(lat_i) / cos^2(lat_i) / 1 of each node's own latitude",
-                     {"lat": lat, "node_weight_type": wt, "via": via, "expected": exp,
-                      "observed": None if w is None else [float(v) for v in w]})
-        if w is not None and len(w) == n:
-            wreqs.append(f"weights {wt or 'none'} {n} {enc_rats(lat)}")
-            wimpl.append([float(v) for v in w])
-        # derived bookkeeping of the node_weights setter
-        if w is not None and okw and (abs(net.total_node_weight - math.fsum(exp)) > n * TOL_W
-                                      or abs(net.mean_node_weight - math.fsum(exp) / n) > TOL_W):
-            ctx.fail({"kind": "weights", "class": "GeoNetwork", "method": "total_node_weight"},
-                     "total/mean node weight not the sum/mean of the cos-lat weights",
-                     {"lat": lat, "node_weight_type": wt, "via": via,
-                      "total": float(net.total_node_weight), "expected_total": math.fsum(exp)})
-        # area weighted connectivity
-        tot = math.fsum(cosl)
-        inn = [math.fsum(cosl[i] * int(A[i, j]) for i in range(n)) / tot for j in range(n)]
-        out = [math.fsum(cosl[j] * int(A[i, j]) for j in range(n)) / tot for i in range(n)]
-        expd = {"inarea_weighted_connectivity": inn, "outarea_weighted_connectivity": out,
-                "area_weighted_connectivity":
-                    [a + b for a, b in zip(inn, out)] if directed else inn}
-        for nm, e in expd.items():
+        cur = {}
+        with ImplGuard(ctx, "weights", cur, [wreqs, wimpl, areqs, aimpl]):
+            n = rng.choice([2, 3, 5, 8])
+            lat = [f32(rng.uniform(-89, 89)) for _ in range(n)]
+            if rng.random() < 0.3:
+                lat[0] = rng.choice([90.0, -90.0, 0.0])
+            lon = [f32(rng.uniform(-180, 180)) for _ in range(n)]
+            directed = rng.random() < 0.5
+            A = rand_adj(rng, n, directed)
+            cur.update(lat=lat, lon=lon, adjacency=A, directed=directed)
+            ak, lat_arr = twin_1d(rng, lat) if rng.random() < 0.4 else ("f64", np.array(lat))
+            ctx.count(f"weights:lat-array={ak}")
+            g = GeoGrid(np.arange(2), lat_arr, np.array(lon), silence_level=3)
+            cosl = [math.cos(math.radians(v)) for v in lat]
+            wt = rng.choice(["surface", "irrigation", None])
+            via = rng.choice(["init", "setter", "history", "history"])
             try:
-                got = [float(v) for v in getattr(net, nm)()]
-            except Exception as ex:  # noqa
-                ctx.fail({"kind": "awc", "method": nm, "error": type(ex).__name__},
-                         f"{nm} raised {type(ex).__name__}: {ex}",
-                         {"lat": lat, "adjacency": A.tolist(), "directed": directed})
+                if via == "init":
+                    net = GeoNetwork(g, adjacency=A, directed=directed, node_weight_type=wt,
+                                     silence_level=3)
+                elif via == "setter":
+                    net = GeoNetwork(g, adjacency=A, directed=directed,
+                                     node_weight_type=rng.choice(["surface", "irrigation", None]),
+                                     silence_level=3)
+                    net.set_node_weight_type(wt)
+                else:
+                    # a history of weight types on one object, with measures that cache values
+                    # derived from the weights evaluated in between
+                    net = GeoNetwork(g, adjacency=A, directed=directed,
+                                     node_weight_type=rng.choice(["surface", "irrigation", None]),
+                                     silence_level=3)
+                    steps = [rng.choice(["surface", "irrigation", None, "invalid-name"])
+                             for _ in range(rng.randrange(2, 5))] + [wt]
+                    for st in steps:
+                        net.area_weighted_connectivity(), net.nsi_degree()
+                        net.set_node_weight_type(st)
+                        ws = net.node_weights
+                        es = {"surface": cosl, "irrigation": [v * v for v in cosl]}.get(st, [1.0] * n)
+                        if ws is None or len(ws) != n or \
+                                any(abs(float(ws[i]) - es[i]) > TOL_W for i in range(n)) or \
+                                abs(net.total_node_weight - math.fsum(es)) > n * TOL_W:
+                            ctx.fail({"kind": "weights", "class": "GeoNetwork",
+                                      "method": "set_node_weight_type", "node_weight_type": str(st),
+                                      "via": "history"},
+                                     f"after the history {steps} of set_node_weight_type calls the "
+                                     f"weights for {st!r} are not cos(lat_i) / cos^2(lat_i) / 1",
+                                     {"lat": lat, "history": [str(x) for x in steps], "failed_at": str(st),
+                                      "expected": es,
+                                      "observed": None if ws is None else [float(v) for v in ws]})
+                            break
+                    ctx.count("weights:history-steps", len(steps))
+                w = net.node_weights
+            except Exception as e:  # noqa
+                ctx.fail({"kind": "weights", "class": "GeoNetwork", "error": type(e).__name__},
+                         f"GeoNetwork(node_weight_type={wt!r}) raised {type(e).__name__}: {e}",
+                         {"lat": lat, "node_weight_type": wt, "via": via})
                 continue
-            ctx.count(f"awc:{nm}:directed={directed}")
-            if len(got) != n or any(abs(got[i] - e[i]) > 2.0 ** -18 for i in range(n)):
-                ctx.fail({"kind": "awc", "class": "GeoNetwork", "method": nm,
-                          "directed": directed},
-                         f"{nm} is not the cos-lat weighted fraction of linked area",
-                         {"lat": lat, "adjacency": A.tolist(), "directed": directed,
-                          "expected": e, "observed": got})
-            if nm == "area_weighted_connectivity" and len(got) == n:
-                areqs.append(f"awc {int(directed)} {n} {enc_rats(lat)} "
-                             f"{enc_ratmat(A.astype(float).tolist())}")
-                aimpl.append(got)
+            exp = {"surface": cosl, "irrigation": [v * v for v in cosl], None: [1.0] * n}[wt]
+            ctx.count(f"weights:type={wt}:{via}")
+            ctx.case(("w", tuple(lat), wt, via, A.tobytes().hex(), directed), len(set(lat)) >= 2,
+                     {"suite": "GeoNetwork.node_weights", "lat": lat, "node_weight_type": wt}
+                     if n <= 3 else None)
+            okw = w is not None and len(w) == n and \
+                all(abs(float(w[i]) - exp[i]) <= TOL_W for i in range(n))
+            if not okw:
+                ctx.fail({"kind": "weights", "class": "GeoNetwork", "method": "set_node_weight_type",
+                          "node_weight_type": str(wt)},
+                         f"node_weights for node_weight_type={wt!r} are not "
+                         "cos(lat_i) / cos^2(lat_i) / 1 of each node's own latitude",
+                         {"lat": lat, "node_weight_type": wt, "via": via, "expected": exp,
+                          "observed": None if w is None else [float(v) for v in w]})
+            if w is not None and len(w) == n:
+                wreqs.append(f"weights {wt or 'none'} {n} {enc_rats(lat)}")
+                wimpl.append([float(v) for v in w])
+            # derived bookkeeping of the node_weights setter
+            if w is not None and okw and (abs(net.total_node_weight - math.fsum(exp)) > n * TOL_W
+                                          or abs(net.mean_node_weight - math.fsum(exp) / n) > TOL_W):
+                ctx.fail({"kind": "weights", "class": "GeoNetwork", "method": "total_node_weight"},
+                         "total/mean node weight not the sum/mean of the cos-lat weights",
+                         {"lat": lat, "node_weight_type": wt, "via": via,
+                          "total": float(net.total_node_weight), "expected_total": math.fsum(exp)})
+            # area weighted connectivity
+            tot = math.fsum(cosl)
+            inn = [math.fsum(cosl[i] * int(A[i, j]) for i in range(n)) / tot for j in range(n)]
+            out = [math.fsum(cosl[j] * int(A[i, j]) for j in range(n)) / tot for i in range(n)]
+            expd = {"inarea_weighted_connectivity": inn, "outarea_weighted_connectivity": out,
+                    "area_weighted_connectivity":
+                        [a + b for a, b in zip(inn, out)] if directed else inn}
+            for nm, e in expd.items():
+                try:
+                    got = [float(v) for v in getattr(net, nm)()]
+                except Exception as ex:  # noqa
+                    ctx.fail({"kind": "awc", "method": nm, "error": type(ex).__name__},
+                             f"{nm} raised {type(ex).__name__}: {ex}",
+                             {"lat": lat, "adjacency": A.tolist(), "directed": directed})
+                    continue
+                ctx.count(f"awc:{nm}:directed={directed}")
+                if len(got) != n or any(abs(got[i] - e[i]) > 2.0 ** -18 for i in range(n)):
+                    ctx.fail({"kind": "awc", "class": "GeoNetwork", "method": nm,
+                              "directed": directed},
+                             f"{nm} is not the cos-lat weighted fraction of linked area",
+                             {"lat": lat, "adjacency": A.tolist(), "directed": directed,
+                              "expected": e, "observed": got})
+                if nm == "area_weighted_connectivity" and len(got) == n:
+                    areqs.append(f"awc {int(directed)} {n} {enc_rats(lat)} "
+                                 f"{enc_ratmat(A.astype(float).tolist())}")
+                    aimpl.append(got)
 
     def judge_w(i, m):
         mv = dec_floats(m)
@@ -1167,142 +1332,168 @@ def suite_weights(ctx, GeoGrid, GeoNetwork, rng, ncases):
 def suite_link_distance(ctx, Grid, GeoGrid, GeoNetwork, SpatialNetwork, rng, ncases):
     mreqs, mimpl = [], []       # exact requests: (request, implementation values, kind)
     for c in range(ncases):
-        n = rng.choice([2, 3, 5, 8])
-        directed = rng.random() < 0.5
-        geo = rng.random() < 0.5
-        if geo:
-            _, lat, lon = gen_geo_coords(rng, n)
-            n = len(lat)
-        A = rand_adj(rng, n, directed)
-        shape = rng.choice(["random", "random", "random", "empty", "isolated", "complete"])
-        if shape == "empty":
-            A[:] = 0
-        elif shape == "isolated":
-            i0 = rng.randrange(n)
-            A[i0, :] = 0
-            A[:, i0] = 0
-        elif shape == "complete":
-            A[:] = 1
-            np.fill_diagonal(A, 0)
-        if geo:
-            g = GeoGrid(np.arange(2), np.array(lat), np.array(lon), silence_level=3)
-            net = GeoNetwork(g, adjacency=A, directed=directed, silence_level=3)
-            R = gc_matrix(g.lat_sequence(), g.lon_sequence())
-            tol = ABS_ANG
-            desc = {"lat": lat, "lon": lon}
-        else:
-            d = rng.randrange(1, 4)
-            _, X = gen_euc_coords(rng, d, n)
-            g = Grid(np.arange(2), np.array(X).reshape(d, n), silence_level=3)
-            net = SpatialNetwork(g, adjacency=A, directed=directed, silence_level=3)
-            R = euc_matrix(g._grid["space"])
-            tol = REL_EUC * max(1.0, float(R.max())) * 4
-            desc = {"space_seq": X}
-        ctx.count(f"link-distance:{'geo' if geo else 'euclid'}:directed={directed}")
-        ctx.count(f"link-distance:adjacency={shape}")
-        ctx.case(("ld", str(desc), A.tobytes().hex(), directed), A.sum() > 0)
-        Au = ((A + A.T) > 0).astype(int)
-        Ai = A.astype(int)
-        outdeg, indeg = Ai.sum(axis=1), Ai.sum(axis=0)
-        rowmean = R.mean(axis=1)
-        exp = {
-            ("max_link_distance", False): [
-                max((R[i, j] for j in range(n) if Au[i, j]), default=0.0) for i in range(n)],
-            ("outaverage_link_distance", False): [
-                math.fsum(R[i, j] for j in range(n) if Ai[i, j]) / outdeg[i] if outdeg[i] else 0.0
-                for i in range(n)],
-            ("inaverage_link_distance", False): [
-                math.fsum(R[i, j] for i in range(n) if Ai[i, j]) / indeg[j] if indeg[j] else 0.0
-                for j in range(n)],
-        }
-        if not directed:
-            exp[("average_link_distance", False)] = exp[("outaverage_link_distance", False)]
-        # geometry_corrected=True: divided by the node's mean distance to all nodes
-        for (nm, _), e in list(exp.items()):
-            if nm != "max_link_distance":
-                exp[(nm, True)] = [e[i] / rowmean[i] if rowmean[i] > 0 else None for i in range(n)]
-        if geo:
-            cosl = [math.cos(math.radians(float(v))) for v in g.lat_sequence()]
-            tot = math.fsum(cosl)
-            inn = [math.fsum(cosl[i] * Ai[i, j] for i in range(n)) / tot for j in range(n)]
-            out = [math.fsum(cosl[j] * Ai[i, j] for j in range(n)) / tot for i in range(n)]
-            # area weighted measures built on the distances (cos of the *neighbour's* latitude)
-            exp[("outtotal_link_distance", False)] = [
-                a * b for a, b in zip(exp[("outaverage_link_distance", False)], out)]
-            exp[("intotal_link_distance", False)] = [
-                a * b for a, b in zip(exp[("inaverage_link_distance", False)], inn)]
-            exp[("outconnectivity_weighted_distance", False)] = [
-                math.fsum(R[i, j] * cosl[j] for j in range(n) if Ai[i, j]) / (outdeg[i] * tot)
-                if outdeg[i] else 0.0 for i in range(n)]
-            exp[("inconnectivity_weighted_distance", False)] = [
-                math.fsum(R[i, j] * cosl[i] for i in range(n) if Ai[i, j]) / (indeg[j] * tot)
-                if indeg[j] else 0.0 for j in range(n)]
-            if not directed:
-                exp[("total_link_distance", False)] = exp[("outtotal_link_distance", False)]
-                exp[("connectivity_weighted_distance", False)] = \
-                    exp[("outconnectivity_weighted_distance", False)]
-        impl_vals = {}
-        for (nm, corr), e in exp.items():
-            try:
-                with np.errstate(all="ignore"):
-                    if corr:
-                        got = [float(v) for v in getattr(net, nm)(geometry_corrected=True)]
-                    elif nm.endswith("average_link_distance") and rng.random() < 0.5:
-                        got = [float(v) for v in getattr(net, nm)(geometry_corrected=False)]
-                    else:
-                        got = [float(v) for v in getattr(net, nm)()]
-            except Exception as ex:  # noqa
-                ctx.fail({"kind": "link-distance", "method": nm, "error": type(ex).__name__},
-                         f"{nm} raised {type(ex).__name__}: {ex}",
-                         dict(desc, adjacency=A.tolist(), directed=directed,
-                              geometry_corrected=corr))
-                continue
-            impl_vals[(nm, corr)] = got
-            ctx.count(f"link-distance:{nm}:corrected={corr}")
-            bad = len(got) != n
-            for i in range(n if not bad else 0):
-                if e[i] is None:
-                    continue                    # division by a zero mean distance: no value
-                t = tol
-                if corr:
-                    if rowmean[i] <= 8 * tol:
-                        continue                # the quotient is not determined to the accuracy
-                    t = 2 * tol * (1 + e[i]) / (rowmean[i] - tol)
-                if not (abs(got[i] - e[i]) <= t):
-                    bad = True
-            if bad:
-                ctx.fail({"kind": "link-distance", "method": nm, "directed": directed,
-                          "grid": "geo" if geo else "euclid", "geometry_corrected": corr},
-                         f"{nm}(geometry_corrected={corr}) is not the max / mean / area-weighted "
-                         "closed-form distance over the node's links",
-                         dict(desc, adjacency=A.tolist(), directed=directed, expected=e,
-                              observed=got, geometry_corrected=corr))
-        # exact model requests on the implementation's own distance matrix
-        Dm = np.array(g.distance())
-        if not np.isfinite(Dm).all():
-            continue
-        dtxt = enc_ratmat(Dm.astype(np.float64).tolist())
-        atxt = enc_ratmat(Ai.tolist())
-        for (nm, corr), got in impl_vals.items():
-            mode = {"outaverage_link_distance": "out", "inaverage_link_distance": "in",
-                    "average_link_distance": "dir" if directed else "undir"}.get(nm)
-            if nm == "max_link_distance":
-                mreqs.append(f"maxld {n} {dtxt} {atxt}")
-            elif mode:
-                mreqs.append(f"ald {mode} {int(corr)} {n} {dtxt} {atxt}")
+        cur = {}
+        with ImplGuard(ctx, "link-distance", cur, [mreqs, mimpl]):
+            n = rng.choice([2, 3, 5, 8])
+            directed = rng.random() < 0.5
+            geo = rng.random() < 0.5
+            if geo:
+                _, lat, lon = gen_geo_coords(rng, n)
+                n = len(lat)
+            A = rand_adj(rng, n, directed)
+            shape = rng.choice(["random", "random", "random", "empty", "isolated", "complete"])
+            if shape == "empty":
+                A[:] = 0
+            elif shape == "isolated":
+                i0 = rng.randrange(n)
+                A[i0, :] = 0
+                A[:, i0] = 0
+            elif shape == "complete":
+                A[:] = 1
+                np.fill_diagonal(A, 0)
+            cur.update(adjacency=A, directed=directed)
+            if geo:
+                cur.update(lat=lat, lon=lon)
+                g = GeoGrid(np.arange(2), np.array(lat), np.array(lon), silence_level=3)
+                net = GeoNetwork(g, adjacency=A, directed=directed, silence_level=3)
+                R = gc_matrix(g.lat_sequence(), g.lon_sequence())
+                tol = ABS_ANG
+                desc = {"lat": lat, "lon": lon}
             else:
-                continue
-            mimpl.append((got, nm))
-        if directed:
-            # `average_link_distance` of a directed network (undirected adjacency, in+out degree)
-            for corr in (False, True):
+                d = rng.choice([1, 2, 3, 5])
+                _, X = gen_euc_coords(rng, d, n)
+                cur.update(space_seq=X)
+                g = Grid(np.arange(2), np.array(X).reshape(d, n), silence_level=3)
+                net = SpatialNetwork(g, adjacency=A, directed=directed, silence_level=3)
+                R = euc_matrix(g._grid["space"])
+                tol = REL_EUC * max(1.0, float(R.max())) * 4
+                desc = {"space_seq": X}
+            ctx.count(f"link-distance:{'geo' if geo else 'euclid'}:directed={directed}")
+            ctx.count(f"link-distance:adjacency={shape}")
+            ctx.case(("ld", str(desc), A.tobytes().hex(), directed), A.sum() > 0)
+            Au = ((A + A.T) > 0).astype(int)
+            Ai = A.astype(int)
+            outdeg, indeg = Ai.sum(axis=1), Ai.sum(axis=0)
+            rowmean = R.mean(axis=1)
+            exp = {
+                ("max_link_distance", False): [
+                    max((R[i, j] for j in range(n) if Au[i, j]), default=0.0) for i in range(n)],
+                ("outaverage_link_distance", False): [
+                    math.fsum(R[i, j] for j in range(n) if Ai[i, j]) / outdeg[i] if outdeg[i] else 0.0
+                    for i in range(n)],
+                ("inaverage_link_distance", False): [
+                    math.fsum(R[i, j] for i in range(n) if Ai[i, j]) / indeg[j] if indeg[j] else 0.0
+                    for j in range(n)],
+            }
+            if not directed:
+                exp[("average_link_distance", False)] = exp[("outaverage_link_distance", False)]
+            # geometry_corrected=True: divided by the node's mean distance to all nodes
+            for (nm, _), e in list(exp.items()):
+                if nm != "max_link_distance":
+                    exp[(nm, True)] = [e[i] / rowmean[i] if rowmean[i] > 0 else None for i in range(n)]
+            if geo:
+                cosl = [math.cos(math.radians(float(v))) for v in g.lat_sequence()]
+                tot = math.fsum(cosl)
+                inn = [math.fsum(cosl[i] * Ai[i, j] for i in range(n)) / tot for j in range(n)]
+                out = [math.fsum(cosl[j] * Ai[i, j] for j in range(n)) / tot for i in range(n)]
+                # area weighted measures built on the distances (cos of the *neighbour's* latitude)
+                exp[("outtotal_link_distance", False)] = [
+                    a * b for a, b in zip(exp[("outaverage_link_distance", False)], out)]
+                exp[("intotal_link_distance", False)] = [
+                    a * b for a, b in zip(exp[("inaverage_link_distance", False)], inn)]
+                exp[("outconnectivity_weighted_distance", False)] = [
+                    math.fsum(R[i, j] * cosl[j] for j in range(n) if Ai[i, j]) / (outdeg[i] * tot)
+                    if outdeg[i] else 0.0 for i in range(n)]
+                exp[("inconnectivity_weighted_distance", False)] = [
+                    math.fsum(R[i, j] * cosl[i] for i in range(n) if Ai[i, j]) / (indeg[j] * tot)
+                    if indeg[j] else 0.0 for j in range(n)]
+                if not directed:
+                    exp[("total_link_distance", False)] = exp[("outtotal_link_distance", False)]
+                    exp[("connectivity_weighted_distance", False)] = \
+                        exp[("outconnectivity_weighted_distance", False)]
+            impl_vals = {}
+            for (nm, corr), e in exp.items():
                 try:
                     with np.errstate(all="ignore"):
-                        got = [float(v) for v in net.average_link_distance(geometry_corrected=corr)]
-                    mreqs.append(f"ald dir {int(corr)} {n} {dtxt} {atxt}")
-                    mimpl.append((got, "average_link_distance"))
-                except Exception:  # noqa
-                    pass
+                        if corr:
+                            got = [float(v) for v in getattr(net, nm)(geometry_corrected=True)]
+                        elif nm.endswith("average_link_distance") and rng.random() < 0.5:
+                            got = [float(v) for v in getattr(net, nm)(geometry_corrected=False)]
+                        else:
+                            got = [float(v) for v in getattr(net, nm)()]
+                except Exception as ex:  # noqa
+                    ctx.fail({"kind": "link-distance", "method": nm, "error": type(ex).__name__},
+                             f"{nm} raised {type(ex).__name__}: {ex}",
+                             dict(desc, adjacency=A.tolist(), directed=directed,
+                                  geometry_corrected=corr))
+                    continue
+                impl_vals[(nm, corr)] = got
+                ctx.count(f"link-distance:{nm}:corrected={corr}")
+                bad = len(got) != n
+                for i in range(n if not bad else 0):
+                    if e[i] is None:
+                        continue                    # division by a zero mean distance: no value
+                    t = tol
+                    if corr:
+                        if rowmean[i] <= 8 * tol:
+                            continue                # the quotient is not determined to the accuracy
+                        t = 2 * tol * (1 + e[i]) / (rowmean[i] - tol)
+                    if not (abs(got[i] - e[i]) <= t):
+                        bad = True
+                if bad:
+                    ctx.fail({"kind": "link-distance", "method": nm, "directed": directed,
+                              "grid": "geo" if geo else "euclid", "geometry_corrected": corr},
+                             f"{nm}(geometry_corrected={corr}) is not the max / mean / area-weighted "
+                             "closed-form distance over the node's links",
+                             dict(desc, adjacency=A.tolist(), directed=directed, expected=e,
+                                  observed=got, geometry_corrected=corr))
+            # exact model requests on the implementation's own distance matrix
+            Dm = np.array(g.distance())
+            if not np.isfinite(Dm).all():
+                continue
+            dtxt = enc_ratmat(Dm.astype(np.float64).tolist())
+            atxt = enc_ratmat(Ai.tolist())
+            for (nm, corr), got in impl_vals.items():
+                mode = {"outaverage_link_distance": "out", "inaverage_link_distance": "in",
+                        "average_link_distance": "dir" if directed else "undir"}.get(nm)
+                if nm == "max_link_distance":
+                    mreqs.append(f"maxld {n} {dtxt} {atxt}")
+                elif mode:
+                    mreqs.append(f"ald {mode} {int(corr)} {n} {dtxt} {atxt}")
+                else:
+                    continue
+                mimpl.append((got, nm))
+            if directed:
+                # `average_link_distance` of a directed network (undirected adjacency, in+out degree)
+                for corr in (False, True):
+                    try:
+                        with np.errstate(all="ignore"):
+                            got = [float(v) for v in net.average_link_distance(geometry_corrected=corr)]
+                        mreqs.append(f"ald dir {int(corr)} {n} {dtxt} {atxt}")
+                        mimpl.append((got, "average_link_distance"))
+                    except Exception:  # noqa
+                        pass
+            if geo:
+                # round 4: connectivity weighted / total link distances, evaluated by the model on
+                # the implementation's own distance matrix and cos_lat table (exact rationals)
+                wtxt = enc_rats([float(v) for v in g.cos_lat()])
+                und = "dir" if directed else "undir"
+                for nm, mode in (("connectivity_weighted_distance", und),
+                                 ("inconnectivity_weighted_distance", "in"),
+                                 ("outconnectivity_weighted_distance", "out")):
+                    with np.errstate(all="ignore"):
+                        got = [float(v) for v in getattr(net, nm)()]
+                    mreqs.append(f"cwd {mode} {n} {dtxt} {atxt} {wtxt}")
+                    mimpl.append((got, nm))
+                    ctx.count(f"link-distance:model:{nm}:directed={directed}")
+                for nm, mode in (("total_link_distance", und), ("intotal_link_distance", "in"),
+                                 ("outtotal_link_distance", "out")):
+                    for corr in (False, True):
+                        with np.errstate(all="ignore"):
+                            got = [float(v) for v in getattr(net, nm)(geometry_corrected=corr)]
+                        mreqs.append(f"tld {mode} {int(corr)} {n} {dtxt} {atxt} {wtxt}")
+                        mimpl.append((got, nm))
+                        ctx.count(f"link-distance:model:{nm}:corrected={corr}")
 
     def judge(i, m):
         got, nm = mimpl[i]
@@ -1320,9 +1511,10 @@ def suite_link_distance(ctx, Grid, GeoGrid, GeoNetwork, SpatialNetwork, rng, nca
                 return f"model {float(a)!r} impl {b!r}"
         return None
 
-    custom_correspond(ctx, "Lean maxLinkDistNet / inALD / outALD / avgALD (Rat, on the "
-                      "implementation's distance matrix) ~ SpatialNetwork link distance measures "
-                      "(max exact, means rel 2^-18)", mreqs, judge)
+    custom_correspond(ctx, "Lean maxLinkDistNet / inALD / outALD / avgALD / (in|out)CWD / (in|out)TLD "
+                      "(Rat, on the implementation's distance matrix and cos_lat table) ~ "
+                      "SpatialNetwork / GeoNetwork link distance measures (max exact, means rel 2^-18)",
+                      mreqs, judge)
 
 
 # --------------------------------------------------------------------------
@@ -1339,62 +1531,65 @@ def suite_climate_weights(ctx, GeoGrid, rng, ncases):
                                     ["init", "set_threshold", "set_link_density"]))
     rng.shuffle(combos)
     for c in range(ncases):
-        cls, wt, op = combos[c % len(combos)]      # every combination in every run
-        directed = rng.random() < 0.3
-        n1, n2 = rng.choice([2, 3, 4]), rng.choice([1, 2, 3])
-        n = n1 + n2
-        lat = [f32(rng.uniform(-89, 89)) for _ in range(n)]
-        lon = [f32(rng.uniform(-180, 180)) for _ in range(n)]
-        sim = np.array([[rng.randrange(0, 9) / 8 for _ in range(n)] for _ in range(n)])
-        if not directed:
-            sim = np.maximum(sim, sim.T)
-        np.fill_diagonal(sim, 1.0)
-        desc = {"class": cls, "lat": lat, "lon": lon, "similarity": sim.tolist(),
-                "node_weight_type": wt, "directed": directed, "after": op,
-                "N_1": n1 if cls == "CoupledClimateNetwork" else None}
-        try:
-            with contextlib.redirect_stdout(io.StringIO()):   # the joint grid is built verbose
-                if cls == "ClimateNetwork":
-                    g = GeoGrid(np.arange(2), np.array(lat), np.array(lon), silence_level=3)
-                    net = ClimateNetwork(g, sim, threshold=0.5, directed=directed,
-                                         node_weight_type=wt, silence_level=3)
-                else:
-                    g1 = GeoGrid(np.arange(2), np.array(lat[:n1]), np.array(lon[:n1]), silence_level=3)
-                    g2 = GeoGrid(np.arange(2), np.array(lat[n1:]), np.array(lon[n1:]), silence_level=3)
-                    net = CoupledClimateNetwork(g1, g2, sim, threshold=0.5, directed=directed,
-                                                node_weight_type=wt, silence_level=3)
-                if op == "set_threshold":
-                    net.set_threshold(0.25)
-                elif op == "set_link_density":
-                    net.set_link_density(0.5)
-                w = net.node_weights
-                A = np.array(net.adjacency)
-                awc = [float(v) for v in net.area_weighted_connectivity()]
-        except Exception as e:  # noqa
-            ctx.fail({"kind": "weights", "class": cls, "error": type(e).__name__},
-                     f"{cls}(node_weight_type={wt!r}) raised {type(e).__name__}: {e}", desc)
-            continue
-        cosl = [math.cos(math.radians(v)) for v in lat]
-        exp = {"surface": cosl, "irrigation": [v * v for v in cosl], None: [1.0] * n}[wt]
-        ctx.count(f"climate-weights:{cls}:type={wt}:{op}")
-        ctx.case(("cw", cls, tuple(lat), wt, op, sim.tobytes().hex(), directed), True,
-                 {"suite": "climate-weights", **desc} if n <= 4 else None)
-        if w is None or len(w) != n or any(abs(float(w[i]) - exp[i]) > TOL_W for i in range(n)):
-            ctx.fail({"kind": "weights", "class": cls, "method": "node_weights",
-                      "node_weight_type": str(wt)},
-                     f"{cls}.node_weights for node_weight_type={wt!r} are not the cos-lat "
-                     "weights of the nodes' own latitudes",
-                     dict(desc, expected=exp,
-                          observed=None if w is None else [float(v) for v in w]))
-        tot = math.fsum(cosl)
-        inn = [math.fsum(cosl[i] * int(A[i, j]) for i in range(n)) / tot for j in range(n)]
-        out = [math.fsum(cosl[j] * int(A[i, j]) for j in range(n)) / tot for i in range(n)]
-        e = [a + b for a, b in zip(inn, out)] if net.directed else inn
-        if len(awc) != n or any(abs(awc[i] - e[i]) > 2.0 ** -18 for i in range(n)):
-            ctx.fail({"kind": "awc", "class": cls, "method": "area_weighted_connectivity",
-                      "directed": directed},
-                     f"{cls}.area_weighted_connectivity is not the cos-lat weighted linked area",
-                     dict(desc, adjacency=A.tolist(), expected=e, observed=awc))
+        cur = {}
+        with ImplGuard(ctx, "climate-weights", cur, []):
+            cls, wt, op = combos[c % len(combos)]      # every combination in every run
+            directed = rng.random() < 0.3
+            n1, n2 = rng.choice([2, 3, 4]), rng.choice([1, 2, 3])
+            n = n1 + n2
+            lat = [f32(rng.uniform(-89, 89)) for _ in range(n)]
+            lon = [f32(rng.uniform(-180, 180)) for _ in range(n)]
+            sim = np.array([[rng.randrange(0, 9) / 8 for _ in range(n)] for _ in range(n)])
+            if not directed:
+                sim = np.maximum(sim, sim.T)
+            np.fill_diagonal(sim, 1.0)
+            desc = {"class": cls, "lat": lat, "lon": lon, "similarity": sim.tolist(),
+                    "node_weight_type": wt, "directed": directed, "after": op,
+                    "N_1": n1 if cls == "CoupledClimateNetwork" else None}
+            cur.update(desc)
+            try:
+                with contextlib.redirect_stdout(io.StringIO()):   # the joint grid is built verbose
+                    if cls == "ClimateNetwork":
+                        g = GeoGrid(np.arange(2), np.array(lat), np.array(lon), silence_level=3)
+                        net = ClimateNetwork(g, sim, threshold=0.5, directed=directed,
+                                             node_weight_type=wt, silence_level=3)
+                    else:
+                        g1 = GeoGrid(np.arange(2), np.array(lat[:n1]), np.array(lon[:n1]), silence_level=3)
+                        g2 = GeoGrid(np.arange(2), np.array(lat[n1:]), np.array(lon[n1:]), silence_level=3)
+                        net = CoupledClimateNetwork(g1, g2, sim, threshold=0.5, directed=directed,
+                                                    node_weight_type=wt, silence_level=3)
+                    if op == "set_threshold":
+                        net.set_threshold(0.25)
+                    elif op == "set_link_density":
+                        net.set_link_density(0.5)
+                    w = net.node_weights
+                    A = np.array(net.adjacency)
+                    awc = [float(v) for v in net.area_weighted_connectivity()]
+            except Exception as e:  # noqa
+                ctx.fail({"kind": "weights", "class": cls, "error": type(e).__name__},
+                         f"{cls}(node_weight_type={wt!r}) raised {type(e).__name__}: {e}", desc)
+                continue
+            cosl = [math.cos(math.radians(v)) for v in lat]
+            exp = {"surface": cosl, "irrigation": [v * v for v in cosl], None: [1.0] * n}[wt]
+            ctx.count(f"climate-weights:{cls}:type={wt}:{op}")
+            ctx.case(("cw", cls, tuple(lat), wt, op, sim.tobytes().hex(), directed), True,
+                     {"suite": "climate-weights", **desc} if n <= 4 else None)
+            if w is None or len(w) != n or any(abs(float(w[i]) - exp[i]) > TOL_W for i in range(n)):
+                ctx.fail({"kind": "weights", "class": cls, "method": "node_weights",
+                          "node_weight_type": str(wt)},
+                         f"{cls}.node_weights for node_weight_type={wt!r} are not the cos-lat "
+                         "weights of the nodes' own latitudes",
+                         dict(desc, expected=exp,
+                              observed=None if w is None else [float(v) for v in w]))
+            tot = math.fsum(cosl)
+            inn = [math.fsum(cosl[i] * int(A[i, j]) for i in range(n)) / tot for j in range(n)]
+            out = [math.fsum(cosl[j] * int(A[i, j]) for j in range(n)) / tot for i in range(n)]
+            e = [a + b for a, b in zip(inn, out)] if net.directed else inn
+            if len(awc) != n or any(abs(awc[i] - e[i]) > 2.0 ** -18 for i in range(n)):
+                ctx.fail({"kind": "awc", "class": cls, "method": "area_weighted_connectivity",
+                          "directed": directed},
+                         f"{cls}.area_weighted_connectivity is not the cos-lat weighted linked area",
+                         dict(desc, adjacency=A.tolist(), expected=e, observed=awc))
 
 
 # --------------------------------------------------------------------------
@@ -1527,51 +1722,54 @@ def euclid_twins(ctx, Grid, rng, g, X, d, n, D, kind):
 def suite_convlon(ctx, GeoGrid, rng, ncases):
     reqs, impl = [], []
     for c in range(ncases):
-        n = rng.choice([1, 2, 3, 5, 8])
-        g = GeoGrid(np.arange(2), np.zeros(n), np.array([float(rng.randrange(0, 360))
-                                                          for _ in range(n)]), silence_level=3)
-        m = n + rng.choice([0, 0, 0, 0, 2, -1])
-        kind = rng.choice(["0-360", "0-360", "edge", "wide"])
-        lon = []
-        for _ in range(m):
-            if kind == "edge":
-                lon.append(Fr(rng.choice([0, 180, 360, -180, 720, 721, 719, 1441, 1439]), 4)
-                           if rng.random() < 0.5 else Fr(rng.choice([180, 360, 0, 181, 179])))
-            elif kind == "wide":
-                lon.append(Fr(rng.randrange(-4 * 400, 4 * 800), 4))
-            else:
-                lon.append(Fr(rng.randrange(0, 4 * 360 + 1), 4))
-        arr = np.array([float(v) for v in lon])
-        if rng.random() < 0.3:
-            arr = arr.astype(np.float32)
-        try:
-            got = np.asarray(g.convert_lon_coordinates(arr), dtype=np.float64)
-            ans = enc_rats(got.tolist())
-        except Exception as e:  # noqa
-            got, ans = None, "raise:" + type(e).__name__
-        reqs.append(f"convlon {n} {enc_rats(lon)}")
-        impl.append(ans)
-        ctx.count(f"convlon:{kind}")
-        ctx.count("convlon:len-short" if m < n else "convlon:len-long" if m > n else "convlon:len=N")
-        ctx.case(("cl", reqs[-1]), any(v > 180 for v in lon) and any(v <= 180 for v in lon),
-                 {"suite": "convert_lon_coordinates", "request": reqs[-1], "answer": ans}
-                 if n <= 3 else None)
-        # oracle: same point of the sphere; [0, 360] is mapped into (-180, 180]
-        if m >= n:
-            bad = None
-            if got is None or len(got) != n:
-                bad = f"no sequence of {n} longitudes returned ({ans})"
-            else:
-                for i in range(n):
-                    a, b = math.radians(float(lon[i])), math.radians(float(got[i]))
-                    if abs(math.cos(a) - math.cos(b)) > 1e-12 or abs(math.sin(a) - math.sin(b)) > 1e-12:
-                        bad = f"longitude {float(lon[i])} converted to {float(got[i])}: another point"
-                    elif 0 <= lon[i] <= 360 and not (-180 < got[i] <= 180):
-                        bad = f"longitude {float(lon[i])} converted to {float(got[i])}, outside (-180, 180]"
-            if bad:
-                ctx.fail({"kind": "convert-lon", "class": "GeoGrid", "method": "convert_lon_coordinates"},
-                         "GeoGrid.convert_lon_coordinates: " + bad,
-                         {"N": n, "lon_seq": [float(v) for v in lon], "observed": ans})
+        cur = {}
+        with ImplGuard(ctx, "convert_lon_coordinates", cur, [reqs, impl]):
+            n = rng.choice([1, 2, 3, 5, 8])
+            g = GeoGrid(np.arange(2), np.zeros(n), np.array([float(rng.randrange(0, 360))
+                                                              for _ in range(n)]), silence_level=3)
+            m = n + rng.choice([0, 0, 0, 0, 2, -1])
+            kind = rng.choice(["0-360", "0-360", "edge", "wide"])
+            lon = []
+            for _ in range(m):
+                if kind == "edge":
+                    lon.append(Fr(rng.choice([0, 180, 360, -180, 720, 721, 719, 1441, 1439]), 4)
+                               if rng.random() < 0.5 else Fr(rng.choice([180, 360, 0, 181, 179])))
+                elif kind == "wide":
+                    lon.append(Fr(rng.randrange(-4 * 400, 4 * 800), 4))
+                else:
+                    lon.append(Fr(rng.randrange(0, 4 * 360 + 1), 4))
+            cur.update(N=n, lon_seq=lon)
+            arr = np.array([float(v) for v in lon])
+            if rng.random() < 0.3:
+                arr = arr.astype(np.float32)
+            try:
+                got = np.asarray(g.convert_lon_coordinates(arr), dtype=np.float64)
+                ans = enc_rats(got.tolist())
+            except Exception as e:  # noqa
+                got, ans = None, "raise:" + type(e).__name__
+            reqs.append(f"convlon {n} {enc_rats(lon)}")
+            impl.append(ans)
+            ctx.count(f"convlon:{kind}")
+            ctx.count("convlon:len-short" if m < n else "convlon:len-long" if m > n else "convlon:len=N")
+            ctx.case(("cl", reqs[-1]), any(v > 180 for v in lon) and any(v <= 180 for v in lon),
+                     {"suite": "convert_lon_coordinates", "request": reqs[-1], "answer": ans}
+                     if n <= 3 else None)
+            # oracle: same point of the sphere; [0, 360] is mapped into (-180, 180]
+            if m >= n:
+                bad = None
+                if got is None or len(got) != n:
+                    bad = f"no sequence of {n} longitudes returned ({ans})"
+                else:
+                    for i in range(n):
+                        a, b = math.radians(float(lon[i])), math.radians(float(got[i]))
+                        if abs(math.cos(a) - math.cos(b)) > 1e-12 or abs(math.sin(a) - math.sin(b)) > 1e-12:
+                            bad = f"longitude {float(lon[i])} converted to {float(got[i])}: another point"
+                        elif 0 <= lon[i] <= 360 and not (-180 < got[i] <= 180):
+                            bad = f"longitude {float(lon[i])} converted to {float(got[i])}, outside (-180, 180]"
+                if bad:
+                    ctx.fail({"kind": "convert-lon", "class": "GeoGrid", "method": "convert_lon_coordinates"},
+                             "GeoGrid.convert_lon_coordinates: " + bad,
+                             {"N": n, "lon_seq": [float(v) for v in lon], "observed": ans})
     ctx.correspond("Lean convertLon (Rat) == GeoGrid.convert_lon_coordinates", reqs, impl)
 
 
@@ -1591,183 +1789,187 @@ def suite_geo_hist(ctx, GeoGrid, GeoNetwork, rng, ncases):
     reqs, impl = [], []
     nreqs, nimpl = [], []
     for c in range(ncases):
-        n = rng.choice([2, 3, 5, 8, 12])
-        lat = [f32(rng.uniform(-89, 89)) for _ in range(n)]
-        if rng.random() < 0.3:
-            lat[rng.randrange(n)] = rng.choice([90.0, -90.0, 0.0])
-        lon = [f32(rng.uniform(-180, 180)) for _ in range(n)]
-        directed = rng.random() < 0.4
-        A = rand_adj(rng, n, directed)
-        shape = rng.choice(["random", "random", "random", "isolated", "complete", "empty"])
-        if shape == "isolated":
-            i0 = rng.randrange(n)
-            A[i0, :] = 0
-            A[:, i0] = 0
-        elif shape == "complete":
-            A[:] = 1
-            np.fill_diagonal(A, 0)
-        elif shape == "empty":
-            A[:] = 0
-        g = GeoGrid(np.arange(2), np.array(lat), np.array(lon), silence_level=3)
-        net = GeoNetwork(g, adjacency=A, directed=directed, silence_level=3)
-        cosl = [math.cos(math.radians(v)) for v in lat]
-        tot = math.fsum(cosl)
-        w32 = [float(v) for v in g.cos_lat()]
-        nb = rng.choice([1, 2, 3, 4, 5, 8])
-        skind = rng.choice(["dyadic", "dyadic", "constant", "degree", "awc", "float"])
-        if skind == "dyadic":
-            span = rng.choice([1, 2, 4, 8, 16])
-            base = rng.randrange(-5, 6)
-            seq = [float(base + rng.randrange(0, span + 1)) for _ in range(n)]
-            seq[rng.randrange(n)] = float(base)
-            seq[rng.randrange(n)] = float(base + span)
-            if min(seq) == max(seq) or max(seq) - min(seq) != span:
-                seq[0], seq[-1] = float(base), float(base + span)
+        cur = {}
+        with ImplGuard(ctx, "geo-hist", cur, [reqs, impl, nreqs, nimpl]):
+            n = rng.choice([2, 3, 5, 8, 12])
+            lat = [f32(rng.uniform(-89, 89)) for _ in range(n)]
             if rng.random() < 0.3:
-                seq = [v / 4 for v in seq]
-        elif skind == "constant":
-            seq = [float(rng.randrange(-3, 4))] * n
-        elif skind == "degree":
-            seq = [float(v) for v in net.degree()]
-        elif skind == "awc":
-            seq = [float(v) for v in net.area_weighted_connectivity()]
-        else:
-            seq = [rng.uniform(-2, 2) for _ in range(n)]
-        ctx.count(f"geo-hist:sequence={skind}")
-        ctx.count(f"geo-hist:n_bins={nb}")
-        ctx.count(f"geo-hist:adjacency={shape}")
-        ctx.case(("gh", tuple(lat), tuple(seq), nb), len(set(seq)) >= 2)
-        desc = {"lat": lat, "lon": lon, "sequence": seq, "n_bins": nb}
-        constant = min(seq) == max(seq)
-        cum = rng.random() < 0.4
-        meth = "geographical_cumulative_distribution" if cum else "geographical_distribution"
-        try:
-            with np.errstate(all="ignore"):
-                res = getattr(net, meth)(np.array(seq), nb)
-            got = [float(v) for v in res[0]]
-            ans = None
-        except Exception as e:  # noqa
-            got, ans = None, "raise:" + type(e).__name__
-        if constant:
-            # `1. / (range_max - range_min)` on Python floats: not a clause of C12, but the model
-            # must reproduce it
-            ctx.count("geo-hist:constant-sequence-raises", int(ans == "raise:ZeroDivisionError"))
-        elif got is None:
-            ctx.fail({"kind": "geo-hist", "class": "GeoNetwork", "method": meth,
-                      "error": ans}, f"{meth} raised on a non-constant sequence: {ans}", desc)
-            continue
-        if got is not None:
-            # oracle: each node contributes the cosine of its own latitude to one bin
-            sym = geo_symbols_float(seq, nb)
-            exp = [math.fsum(cosl[i] for i in range(n) if sym[i] == b) / tot for b in range(nb)]
-            if cum:
-                exp = [math.fsum(exp[b:]) for b in range(nb)]
-            bad = len(got) != nb or any(abs(got[b] - exp[b]) > 2.0 ** -18 for b in range(nb))
-            if not bad and abs((got[0] if cum else math.fsum(got)) - 1) > 2.0 ** -18:
-                bad = True
-            if not bad:
-                lbb = [float(v) for v in res[2]]
-                elb = list(np.linspace(min(seq), max(seq), nb + 1)[:-1])
-                if len(lbb) != nb or any(abs(a - b) > 1e-12 * max(1, abs(b)) for a, b in zip(lbb, elb)):
-                    bad = True
-            if bad:
-                ctx.fail({"kind": "geo-hist", "class": "GeoNetwork", "method": meth},
-                         f"{meth}: a bin is not the share of cos(lat)-area of the nodes falling "
-                         "into it (each node weighted by the cosine of its own latitude), or the "
-                         "bins do not sum to 1",
-                         dict(desc, expected=exp, observed=got))
-        # exact model request (weights = the implementation's own cos_lat table)
-        if len(seq) and (got is not None or constant):
-            safe = constant
-            if not constant:
-                lo, hi = Fr(min(seq)), Fr(max(seq))
-                ts = [(nb - 1) * (Fr(x) - lo) / (hi - lo) for x in seq]
-                pow2 = (hi - lo).numerator == 1 or (hi - lo).denominator == 1 and \
-                    ((hi - lo).numerator & ((hi - lo).numerator - 1)) == 0
-                safe = pow2 or all(t == 0 or abs(t - round(t)) > Fr(1, 10 ** 9) for t in ts)
-            if safe:
-                reqs.append(f"{'geocum' if cum else 'geodist'} {nb} {enc_rats(w32)} {enc_rats(seq)}")
-                impl.append(ans if got is None else got)
+                lat[rng.randrange(n)] = rng.choice([90.0, -90.0, 0.0])
+            lon = [f32(rng.uniform(-180, 180)) for _ in range(n)]
+            directed = rng.random() < 0.4
+            A = rand_adj(rng, n, directed)
+            shape = rng.choice(["random", "random", "random", "isolated", "complete", "empty"])
+            if shape == "isolated":
+                i0 = rng.randrange(n)
+                A[i0, :] = 0
+                A[:, i0] = 0
+            elif shape == "complete":
+                A[:] = 1
+                np.fill_diagonal(A, 0)
+            elif shape == "empty":
+                A[:] = 0
+            cur.update(lat=lat, lon=lon, adjacency=A, directed=directed)
+            g = GeoGrid(np.arange(2), np.array(lat), np.array(lon), silence_level=3)
+            net = GeoNetwork(g, adjacency=A, directed=directed, silence_level=3)
+            cosl = [math.cos(math.radians(v)) for v in lat]
+            tot = math.fsum(cosl)
+            w32 = [float(v) for v in g.cos_lat()]
+            nb = rng.choice([1, 2, 3, 4, 5, 8])
+            skind = rng.choice(["dyadic", "dyadic", "constant", "degree", "awc", "float"])
+            if skind == "dyadic":
+                span = rng.choice([1, 2, 4, 8, 16])
+                base = rng.randrange(-5, 6)
+                seq = [float(base + rng.randrange(0, span + 1)) for _ in range(n)]
+                seq[rng.randrange(n)] = float(base)
+                seq[rng.randrange(n)] = float(base + span)
+                if min(seq) == max(seq) or max(seq) - min(seq) != span:
+                    seq[0], seq[-1] = float(base), float(base + span)
+                if rng.random() < 0.3:
+                    seq = [v / 4 for v in seq]
+            elif skind == "constant":
+                seq = [float(rng.randrange(-3, 4))] * n
+            elif skind == "degree":
+                seq = [float(v) for v in net.degree()]
+            elif skind == "awc":
+                seq = [float(v) for v in net.area_weighted_connectivity()]
             else:
-                ctx.count("geo-hist:tie-at-a-bin-boundary (oracle only)")
-        # the six wrappers are geographical_(cumulative_)distribution of the AWC sequences
-        if rng.random() < 0.5:
-            pre = rng.choice(["", "in", "out"])
-            wcum = rng.random() < 0.5
-            wn = f"{pre}area_weighted_connectivity_{'cumulative_' if wcum else ''}distribution"
-            awcs = getattr(net, f"{pre}area_weighted_connectivity")()
+                seq = [rng.uniform(-2, 2) for _ in range(n)]
+            ctx.count(f"geo-hist:sequence={skind}")
+            ctx.count(f"geo-hist:n_bins={nb}")
+            ctx.count(f"geo-hist:adjacency={shape}")
+            ctx.case(("gh", tuple(lat), tuple(seq), nb), len(set(seq)) >= 2)
+            desc = {"lat": lat, "lon": lon, "sequence": seq, "n_bins": nb}
+            cur.update(desc)
+            constant = min(seq) == max(seq)
+            cum = rng.random() < 0.4
+            meth = "geographical_cumulative_distribution" if cum else "geographical_distribution"
             try:
                 with np.errstate(all="ignore"):
-                    a1 = getattr(net, wn)(nb)
-            except ZeroDivisionError:
-                a1 = None
+                    res = getattr(net, meth)(np.array(seq), nb)
+                got = [float(v) for v in res[0]]
+                ans = None
+            except Exception as e:  # noqa
+                got, ans = None, "raise:" + type(e).__name__
+            if constant:
+                # `1. / (range_max - range_min)` on Python floats: not a clause of C12, but the model
+                # must reproduce it
+                ctx.count("geo-hist:constant-sequence-raises", int(ans == "raise:ZeroDivisionError"))
+            elif got is None:
+                ctx.fail({"kind": "geo-hist", "class": "GeoNetwork", "method": meth,
+                          "error": ans}, f"{meth} raised on a non-constant sequence: {ans}", desc)
+                continue
+            if got is not None:
+                # oracle: each node contributes the cosine of its own latitude to one bin
+                sym = geo_symbols_float(seq, nb)
+                exp = [math.fsum(cosl[i] for i in range(n) if sym[i] == b) / tot for b in range(nb)]
+                if cum:
+                    exp = [math.fsum(exp[b:]) for b in range(nb)]
+                bad = len(got) != nb or any(abs(got[b] - exp[b]) > 2.0 ** -18 for b in range(nb))
+                if not bad and abs((got[0] if cum else math.fsum(got)) - 1) > 2.0 ** -18:
+                    bad = True
+                if not bad:
+                    lbb = [float(v) for v in res[2]]
+                    elb = list(np.linspace(min(seq), max(seq), nb + 1)[:-1])
+                    if len(lbb) != nb or any(abs(a - b) > 1e-12 * max(1, abs(b)) for a, b in zip(lbb, elb)):
+                        bad = True
+                if bad:
+                    ctx.fail({"kind": "geo-hist", "class": "GeoNetwork", "method": meth},
+                             f"{meth}: a bin is not the share of cos(lat)-area of the nodes falling "
+                             "into it (each node weighted by the cosine of its own latitude), or the "
+                             "bins do not sum to 1",
+                             dict(desc, expected=exp, observed=got))
+            # exact model request (weights = the implementation's own cos_lat table)
+            if len(seq) and (got is not None or constant):
+                safe = constant
+                if not constant:
+                    lo, hi = Fr(min(seq)), Fr(max(seq))
+                    ts = [(nb - 1) * (Fr(x) - lo) / (hi - lo) for x in seq]
+                    pow2 = (hi - lo).numerator == 1 or (hi - lo).denominator == 1 and \
+                        ((hi - lo).numerator & ((hi - lo).numerator - 1)) == 0
+                    safe = pow2 or all(t == 0 or abs(t - round(t)) > Fr(1, 10 ** 9) for t in ts)
+                if safe:
+                    reqs.append(f"{'geocum' if cum else 'geodist'} {nb} {enc_rats(w32)} {enc_rats(seq)}")
+                    impl.append(ans if got is None else got)
+                else:
+                    ctx.count("geo-hist:tie-at-a-bin-boundary (oracle only)")
+            # the six wrappers are geographical_(cumulative_)distribution of the AWC sequences
+            if rng.random() < 0.5:
+                pre = rng.choice(["", "in", "out"])
+                wcum = rng.random() < 0.5
+                wn = f"{pre}area_weighted_connectivity_{'cumulative_' if wcum else ''}distribution"
+                awcs = getattr(net, f"{pre}area_weighted_connectivity")()
+                try:
+                    with np.errstate(all="ignore"):
+                        a1 = getattr(net, wn)(nb)
+                except ZeroDivisionError:
+                    a1 = None
+                try:
+                    with np.errstate(all="ignore"):
+                        a2 = getattr(net, "geographical_cumulative_distribution" if wcum
+                                     else "geographical_distribution")(awcs, nb)
+                except ZeroDivisionError:
+                    a2 = None
+                ctx.count(f"geo-hist:wrapper={wn}")
+                same = (a1 is None) == (a2 is None) and \
+                    (a1 is None or all(np.array_equal(x, y, equal_nan=True) for x, y in zip(a1, a2)))
+                if not same:
+                    ctx.fail({"kind": "geo-hist", "class": "GeoNetwork", "method": wn},
+                             f"{wn}(n_bins) is not the geographical distribution of "
+                             f"{pre}area_weighted_connectivity()",
+                             dict(desc, adjacency=A.tolist(), directed=directed))
+            # neighbour statistics of the AWC
+            awc = [float(v) for v in net.area_weighted_connectivity()]
+            Au = ((A + A.T) > 0).astype(int)
+            deg = [float(v) for v in net.degree()]
+            inn = [math.fsum(cosl[i] * int(A[i, j]) for i in range(n)) / tot for j in range(n)]
+            out_ = [math.fsum(cosl[j] * int(A[i, j]) for j in range(n)) / tot for i in range(n)]
+            cawc = [a + b for a, b in zip(inn, out_)] if directed else inn
             try:
-                with np.errstate(all="ignore"):
-                    a2 = getattr(net, "geographical_cumulative_distribution" if wcum
-                                 else "geographical_distribution")(awcs, nb)
-            except ZeroDivisionError:
-                a2 = None
-            ctx.count(f"geo-hist:wrapper={wn}")
-            same = (a1 is None) == (a2 is None) and \
-                (a1 is None or all(np.array_equal(x, y, equal_nan=True) for x, y in zip(a1, a2)))
-            if not same:
-                ctx.fail({"kind": "geo-hist", "class": "GeoNetwork", "method": wn},
-                         f"{wn}(n_bins) is not the geographical distribution of "
-                         f"{pre}area_weighted_connectivity()",
+                avg = [float(v) for v in net.average_neighbor_area_weighted_connectivity()]
+            except Exception as e:  # noqa
+                ctx.fail({"kind": "nb-awc", "method": "average_neighbor_area_weighted_connectivity",
+                          "error": type(e).__name__}, f"raised {type(e).__name__}: {e}",
                          dict(desc, adjacency=A.tolist(), directed=directed))
-        # neighbour statistics of the AWC
-        awc = [float(v) for v in net.area_weighted_connectivity()]
-        Au = ((A + A.T) > 0).astype(int)
-        deg = [float(v) for v in net.degree()]
-        inn = [math.fsum(cosl[i] * int(A[i, j]) for i in range(n)) / tot for j in range(n)]
-        out_ = [math.fsum(cosl[j] * int(A[i, j]) for j in range(n)) / tot for i in range(n)]
-        cawc = [a + b for a, b in zip(inn, out_)] if directed else inn
-        try:
-            avg = [float(v) for v in net.average_neighbor_area_weighted_connectivity()]
-        except Exception as e:  # noqa
-            ctx.fail({"kind": "nb-awc", "method": "average_neighbor_area_weighted_connectivity",
-                      "error": type(e).__name__}, f"raised {type(e).__name__}: {e}",
-                     dict(desc, adjacency=A.tolist(), directed=directed))
-            avg = None
-        if avg is not None:
-            nreqs.append(f"nbawc {n} {enc_rats(awc)} {enc_rats(deg)} {enc_ratmat(Au.tolist())}")
-            nimpl.append(("avg", avg))
-            if not directed:
-                e = [math.fsum(cawc[j] for j in range(n) if Au[i, j]) / Au[i].sum()
-                     if Au[i].sum() else 0.0 for i in range(n)]
-                if len(avg) != n or any(abs(avg[i] - e[i]) > 2.0 ** -17 for i in range(n)):
+                avg = None
+            if avg is not None:
+                nreqs.append(f"nbawc {n} {enc_rats(awc)} {enc_rats(deg)} {enc_ratmat(Au.tolist())}")
+                nimpl.append(("avg", avg))
+                if not directed:
+                    e = [math.fsum(cawc[j] for j in range(n) if Au[i, j]) / Au[i].sum()
+                         if Au[i].sum() else 0.0 for i in range(n)]
+                    if len(avg) != n or any(abs(avg[i] - e[i]) > 2.0 ** -17 for i in range(n)):
+                        ctx.fail({"kind": "nb-awc", "class": "GeoNetwork",
+                                  "method": "average_neighbor_area_weighted_connectivity"},
+                                 "average_neighbor_area_weighted_connectivity is not the mean over the "
+                                 "neighbours of their cos-lat weighted connectivity",
+                                 dict(desc, adjacency=A.tolist(), expected=e, observed=avg))
+            try:
+                mx = [float(v) for v in net.max_neighbor_area_weighted_connectivity()]
+                mans = None
+            except ValueError:
+                mx, mans = None, "raise:ValueError"
+            except Exception as e:  # noqa
+                ctx.fail({"kind": "nb-awc", "method": "max_neighbor_area_weighted_connectivity",
+                          "error": type(e).__name__}, f"raised {type(e).__name__}: {e}",
+                         dict(desc, adjacency=A.tolist(), directed=directed))
+                continue
+            isolated = any(Au[i].sum() == 0 for i in range(n))
+            ctx.count("nb-awc:has-isolated-node", int(isolated))
+            nreqs.append(f"maxnbawc {n} {enc_rats(awc)} {enc_ratmat(Au.tolist())}")
+            nimpl.append(("max", mx if mx is not None else mans))
+            if mx is not None:
+                e = [max((cawc[j] for j in range(n) if Au[i, j]), default=None) for i in range(n)]
+                if isolated or len(mx) != n or any(abs(mx[i] - e[i]) > 2.0 ** -17 for i in range(n)):
                     ctx.fail({"kind": "nb-awc", "class": "GeoNetwork",
-                              "method": "average_neighbor_area_weighted_connectivity"},
-                             "average_neighbor_area_weighted_connectivity is not the mean over the "
+                              "method": "max_neighbor_area_weighted_connectivity"},
+                             "max_neighbor_area_weighted_connectivity is not the maximum over the "
                              "neighbours of their cos-lat weighted connectivity",
-                             dict(desc, adjacency=A.tolist(), expected=e, observed=avg))
-        try:
-            mx = [float(v) for v in net.max_neighbor_area_weighted_connectivity()]
-            mans = None
-        except ValueError:
-            mx, mans = None, "raise:ValueError"
-        except Exception as e:  # noqa
-            ctx.fail({"kind": "nb-awc", "method": "max_neighbor_area_weighted_connectivity",
-                      "error": type(e).__name__}, f"raised {type(e).__name__}: {e}",
-                     dict(desc, adjacency=A.tolist(), directed=directed))
-            continue
-        isolated = any(Au[i].sum() == 0 for i in range(n))
-        ctx.count("nb-awc:has-isolated-node", int(isolated))
-        nreqs.append(f"maxnbawc {n} {enc_rats(awc)} {enc_ratmat(Au.tolist())}")
-        nimpl.append(("max", mx if mx is not None else mans))
-        if mx is not None:
-            e = [max((cawc[j] for j in range(n) if Au[i, j]), default=None) for i in range(n)]
-            if isolated or len(mx) != n or any(abs(mx[i] - e[i]) > 2.0 ** -17 for i in range(n)):
+                             dict(desc, adjacency=A.tolist(), directed=directed, expected=e, observed=mx))
+            elif not isolated:
                 ctx.fail({"kind": "nb-awc", "class": "GeoNetwork",
-                          "method": "max_neighbor_area_weighted_connectivity"},
-                         "max_neighbor_area_weighted_connectivity is not the maximum over the "
-                         "neighbours of their cos-lat weighted connectivity",
-                         dict(desc, adjacency=A.tolist(), directed=directed, expected=e, observed=mx))
-        elif not isolated:
-            ctx.fail({"kind": "nb-awc", "class": "GeoNetwork",
-                      "method": "max_neighbor_area_weighted_connectivity", "error": "ValueError"},
-                     "max_neighbor_area_weighted_connectivity raised although every node has a "
-                     "neighbour", dict(desc, adjacency=A.tolist(), directed=directed))
+                          "method": "max_neighbor_area_weighted_connectivity", "error": "ValueError"},
+                         "max_neighbor_area_weighted_connectivity raised although every node has a "
+                         "neighbour", dict(desc, adjacency=A.tolist(), directed=directed))
 
     def judge(i, m):
         im = impl[i]
@@ -1826,96 +2028,101 @@ def near_edge(vals, mx, nb):
 def suite_dist_hist(ctx, Grid, GeoGrid, GeoNetwork, SpatialNetwork, rng, ncases):
     reqs, impl = [], []
     for c in range(ncases):
-        n = rng.choice([1, 2, 3, 5, 8, 12])
-        geo = rng.random() < 0.5
-        directed = rng.random() < 0.4
-        if geo:
-            _, lat, lon = gen_geo_coords(rng, n)
-            n = len(lat)
-            g = GeoGrid(np.arange(2), np.array(lat), np.array(lon), silence_level=3)
-            desc = {"lat": lat, "lon": lon}
-        else:
-            d = rng.randrange(1, 4)
-            _, X = gen_euc_coords(rng, d, n)
-            g = Grid(np.arange(2), np.array(X).reshape(d, n), silence_level=3)
-            desc = {"space_seq": X}
-        A = rand_adj(rng, n, directed)
-        shape = rng.choice(["random", "random", "empty", "complete"])
-        if shape == "empty":
-            A[:] = 0
-        elif shape == "complete":
-            A[:] = 1
-            np.fill_diagonal(A, 0)
-        net = (GeoNetwork if geo else SpatialNetwork)(g, adjacency=A, directed=directed,
-                                                       silence_level=3) if n >= 2 else None
-        nb = rng.choice([1, 2, 3, 4, 5, 7, 8])
-        Dg = np.array(g.distance())
-        if not np.isfinite(Dg).all():
-            continue
-        ctx.count(f"dist-hist:{'geo' if geo else 'euclid'}:n_bins={nb}")
-        ctx.case(("dh", str(desc), nb, A.tobytes().hex()), n >= 2)
-        # geometric_distance_distribution
-        try:
-            with np.errstate(all="ignore"):
-                dist, lbb = g.geometric_distance_distribution(nb)
-            gans = [float(v) for v in dist]
-        except Exception as e:  # noqa
-            gans = "raise:" + type(e).__name__
-        mx = float(Dg.max())
-        tie_g = near_edge(Dg.flatten(), mx, nb)
-        if not isinstance(gans, str) and all(math.isfinite(v) for v in gans):
-            # oracle: counts of the N(N-1) off-diagonal distances per bin of width max/n_bins
-            ok = abs(math.fsum(gans) - 1) < 1e-9 and len(gans) == nb
-            if ok and not tie_g and np.all(np.diag(Dg) < mx / nb):
-                off = Dg[~np.eye(n, dtype=bool)].astype(np.float64)
-                idx = np.minimum((off * nb / mx).astype(int), nb - 1)
-                exp = np.bincount(idx, minlength=nb) / len(off)
-                ok = np.allclose(exp, gans, atol=1e-12)
-            if not ok:
-                ctx.fail({"kind": "dist-hist", "method": "geometric_distance_distribution",
-                          "grid": "geo" if geo else "euclid"},
-                         "geometric_distance_distribution is not the normalised histogram of the "
-                         "off-diagonal distances", dict(desc, n_bins=nb, observed=gans))
-        if not tie_g:
-            reqs.append(f"geomdd {n} {nb} {enc_ratmat(Dg.astype(np.float64).tolist())}")
-            impl.append(gans)
-        else:
-            ctx.count("dist-hist:value-at-a-bin-edge (oracle only)")
-        # link_distance_distribution
-        if net is None:
-            continue
-        gts = ["euclidean", "spherical"] if geo else ["euclidean"]
-        gt = rng.choice(gts)
-        corr = rng.random() < 0.5
-        Dl = np.array(g.angular_distance() if gt == "spherical" else g.euclidean_distance())
-        try:
-            with np.errstate(all="ignore"):
-                if gt == "euclidean" and not corr and rng.random() < 0.5:
-                    ld = net.link_distance_distribution(nb)
-                else:
-                    ld = net.link_distance_distribution(nb, grid_type=gt, geometry_corrected=corr)
-            lans = [float(v) for v in ld[0]]
-        except Exception as e:  # noqa
-            lans = "raise:" + type(e).__name__
-        ctx.count(f"dist-hist:link:{gt}:corrected={corr}")
-        vals = Dl[A == 1]
-        lmx = float(Dl.max())
-        tie_l = near_edge(vals, lmx, nb) or (corr and tie_g)
-        if not isinstance(lans, str) and all(math.isfinite(v) for v in lans) and not corr \
-                and not tie_l and lmx > 0 and len(vals):
-            idx = np.minimum((vals.astype(np.float64) * nb / lmx).astype(int), nb - 1)
-            exp = np.bincount(idx, minlength=nb) / len(vals)
-            if len(lans) != nb or not np.allclose(exp, lans, atol=1e-12):
-                ctx.fail({"kind": "dist-hist", "method": "link_distance_distribution",
-                          "grid_type": gt, "geometry_corrected": corr},
-                         "link_distance_distribution is not the normalised histogram of the "
-                         "distances over the links",
-                         dict(desc, adjacency=A.tolist(), n_bins=nb, expected=exp.tolist(),
-                              observed=lans))
-        if not tie_l:
-            reqs.append(f"linkdd {int(corr)} {n} {nb} {enc_ratmat(Dl.astype(np.float64).tolist())} "
-                        f"{enc_ratmat(Dg.astype(np.float64).tolist())} {enc_ratmat(A.tolist())}")
-            impl.append(lans)
+        cur = {}
+        with ImplGuard(ctx, "dist-hist", cur, [reqs, impl]):
+            n = rng.choice([1, 2, 3, 5, 8, 12])
+            geo = rng.random() < 0.5
+            directed = rng.random() < 0.4
+            if geo:
+                _, lat, lon = gen_geo_coords(rng, n)
+                n = len(lat)
+                cur.update(lat=lat, lon=lon)
+                g = GeoGrid(np.arange(2), np.array(lat), np.array(lon), silence_level=3)
+                desc = {"lat": lat, "lon": lon}
+            else:
+                d = rng.choice([1, 2, 3, 5])
+                _, X = gen_euc_coords(rng, d, n)
+                cur.update(space_seq=X)
+                g = Grid(np.arange(2), np.array(X).reshape(d, n), silence_level=3)
+                desc = {"space_seq": X}
+            A = rand_adj(rng, n, directed)
+            shape = rng.choice(["random", "random", "empty", "complete"])
+            if shape == "empty":
+                A[:] = 0
+            elif shape == "complete":
+                A[:] = 1
+                np.fill_diagonal(A, 0)
+            net = (GeoNetwork if geo else SpatialNetwork)(g, adjacency=A, directed=directed,
+                                                           silence_level=3) if n >= 2 else None
+            nb = rng.choice([1, 2, 3, 4, 5, 7, 8])
+            cur.update(adjacency=A, directed=directed, n_bins=nb)
+            Dg = np.array(g.distance())
+            if not np.isfinite(Dg).all():
+                continue
+            ctx.count(f"dist-hist:{'geo' if geo else 'euclid'}:n_bins={nb}")
+            ctx.case(("dh", str(desc), nb, A.tobytes().hex()), n >= 2)
+            # geometric_distance_distribution
+            try:
+                with np.errstate(all="ignore"):
+                    dist, lbb = g.geometric_distance_distribution(nb)
+                gans = [float(v) for v in dist]
+            except Exception as e:  # noqa
+                gans = "raise:" + type(e).__name__
+            mx = float(Dg.max())
+            tie_g = near_edge(Dg.flatten(), mx, nb)
+            if not isinstance(gans, str) and all(math.isfinite(v) for v in gans):
+                # oracle: counts of the N(N-1) off-diagonal distances per bin of width max/n_bins
+                ok = abs(math.fsum(gans) - 1) < 1e-9 and len(gans) == nb
+                if ok and not tie_g and np.all(np.diag(Dg) < mx / nb):
+                    off = Dg[~np.eye(n, dtype=bool)].astype(np.float64)
+                    idx = np.minimum((off * nb / mx).astype(int), nb - 1)
+                    exp = np.bincount(idx, minlength=nb) / len(off)
+                    ok = np.allclose(exp, gans, atol=1e-12)
+                if not ok:
+                    ctx.fail({"kind": "dist-hist", "method": "geometric_distance_distribution",
+                              "grid": "geo" if geo else "euclid"},
+                             "geometric_distance_distribution is not the normalised histogram of the "
+                             "off-diagonal distances", dict(desc, n_bins=nb, observed=gans))
+            if not tie_g:
+                reqs.append(f"geomdd {n} {nb} {enc_ratmat(Dg.astype(np.float64).tolist())}")
+                impl.append(gans)
+            else:
+                ctx.count("dist-hist:value-at-a-bin-edge (oracle only)")
+            # link_distance_distribution
+            if net is None:
+                continue
+            gts = ["euclidean", "spherical"] if geo else ["euclidean"]
+            gt = rng.choice(gts)
+            corr = rng.random() < 0.5
+            Dl = np.array(g.angular_distance() if gt == "spherical" else g.euclidean_distance())
+            try:
+                with np.errstate(all="ignore"):
+                    if gt == "euclidean" and not corr and rng.random() < 0.5:
+                        ld = net.link_distance_distribution(nb)
+                    else:
+                        ld = net.link_distance_distribution(nb, grid_type=gt, geometry_corrected=corr)
+                lans = [float(v) for v in ld[0]]
+            except Exception as e:  # noqa
+                lans = "raise:" + type(e).__name__
+            ctx.count(f"dist-hist:link:{gt}:corrected={corr}")
+            vals = Dl[A == 1]
+            lmx = float(Dl.max())
+            tie_l = near_edge(vals, lmx, nb) or (corr and tie_g)
+            if not isinstance(lans, str) and all(math.isfinite(v) for v in lans) and not corr \
+                    and not tie_l and lmx > 0 and len(vals):
+                idx = np.minimum((vals.astype(np.float64) * nb / lmx).astype(int), nb - 1)
+                exp = np.bincount(idx, minlength=nb) / len(vals)
+                if len(lans) != nb or not np.allclose(exp, lans, atol=1e-12):
+                    ctx.fail({"kind": "dist-hist", "method": "link_distance_distribution",
+                              "grid_type": gt, "geometry_corrected": corr},
+                             "link_distance_distribution is not the normalised histogram of the "
+                             "distances over the links",
+                             dict(desc, adjacency=A.tolist(), n_bins=nb, expected=exp.tolist(),
+                                  observed=lans))
+            if not tie_l:
+                reqs.append(f"linkdd {int(corr)} {n} {nb} {enc_ratmat(Dl.astype(np.float64).tolist())} "
+                            f"{enc_ratmat(Dg.astype(np.float64).tolist())} {enc_ratmat(A.tolist())}")
+                impl.append(lans)
     # error branch: n_bins = 0
     g = Grid(np.arange(2), np.array([[0., 1., 3.]]), silence_level=3)
     try:
@@ -1972,61 +2179,64 @@ def crossing_inside(poly, pt):
 
 def suite_region(ctx, GeoGrid, rng, ncases):
     for c in range(ncases):
-        n = rng.choice([1, 3, 6, 10])
-        positive = rng.random() < 0.5          # all grid longitudes >= 0: negative polygon
-        lat = [rng.randrange(-360, 361) / 4 for _ in range(n)]      # longitudes are remapped
-        lon = [rng.randrange(0 if positive else -720, 1441 if positive else 721) / 4
-               for _ in range(n)]
-        g = GeoGrid(np.arange(2), np.array(lat), np.array(lon), silence_level=3)
-        kind = rng.choice(["triangle", "rectangle", "quad", "pentagon"])
-        cx = rng.uniform(-170, 170)
-        cy = rng.uniform(-80, 80)
-        if kind == "rectangle":
-            w, h = rng.uniform(5, 150), rng.uniform(5, 60)
-            pts = [(cx - w, cy - h), (cx + w, cy - h), (cx + w, cy + h), (cx - w, cy + h)]
-        else:
-            k = {"triangle": 3, "quad": 4, "pentagon": 5}[kind]
-            angs = sorted(rng.uniform(0, 2 * math.pi) for _ in range(k))
-            pts = [(cx + rng.uniform(10, 150) * math.cos(a), cy + rng.uniform(5, 70) * math.sin(a))
-                   for a in angs]
-        if rng.random() < 0.5:
-            pts.reverse()
-        pts = [(round(x * 8) / 8, round(y * 8) / 8) for x, y in pts]
-        region = np.array([v for p in pts for v in p])
-        how = rng.choice(["f64", "list", "f32", "readonly"])
-        arg = region.copy()
-        if how == "list":
-            arg = list(region)
-        elif how == "f32":
-            arg = region.astype(np.float32)
-        elif how == "readonly":
-            arg.flags.writeable = False
-        before = np.array(arg, dtype=np.float64).copy()
-        ctx.count(f"region:{kind}:{how}:grid-lon>=0={positive and min(lon) >= 0}")
-        ctx.case(("rg", tuple(lat), tuple(lon), tuple(region)), n >= 3)
-        desc = {"lat": lat, "lon": lon, "region": region.tolist(), "region_passed_as": how}
-        try:
-            got = [bool(v) for v in g.region_indices(arg)]
-        except Exception as e:  # noqa
-            ctx.fail({"kind": "region", "method": "region_indices", "error": type(e).__name__},
-                     f"region_indices raised {type(e).__name__}: {e}", desc)
-            continue
-        if not np.array_equal(np.array(arg, dtype=np.float64), before):
-            ctx.fail({"kind": "region", "method": "region_indices", "clause": "argument-modified"},
-                     "region_indices modified the caller's region array", desc)
-        remap = min(lon) >= 0
-        poly = [(Fr(x) + 360 if remap and x < 0 else Fr(x), Fr(y)) for x, y in pts]
-        exp = [crossing_inside(poly, (Fr(lon[i]), Fr(lat[i]))) for i in range(n)]
-        ctx.count("region:nodes-decided", sum(e is not None for e in exp))
-        ctx.count("region:nodes-inside", sum(bool(e) for e in exp))
-        # a self-intersecting remapped polygon is still decided by the even-odd rule only if
-        # matplotlib uses it; restrict the comparison to polygons that stay simple
-        simple = not remap or all(x >= 0 for x, _ in pts) or all(x < 0 for x, _ in pts)
-        if simple and (len(got) != n or any(e is not None and e != gv for e, gv in zip(exp, got))):
-            ctx.fail({"kind": "region", "class": "GeoGrid", "method": "region_indices"},
-                     "region_indices does not mark exactly the nodes inside the polygon "
-                     "(lon, lat pairs; negative polygon longitudes + 360 on a [0, 360] grid)",
-                     dict(desc, expected=exp, observed=got))
+        cur = {}
+        with ImplGuard(ctx, "region_indices", cur, []):
+            n = rng.choice([1, 3, 6, 10])
+            positive = rng.random() < 0.5          # all grid longitudes >= 0: negative polygon
+            lat = [rng.randrange(-360, 361) / 4 for _ in range(n)]      # longitudes are remapped
+            lon = [rng.randrange(0 if positive else -720, 1441 if positive else 721) / 4
+                   for _ in range(n)]
+            cur.update(lat=lat, lon=lon)
+            g = GeoGrid(np.arange(2), np.array(lat), np.array(lon), silence_level=3)
+            kind = rng.choice(["triangle", "rectangle", "quad", "pentagon"])
+            cx = rng.uniform(-170, 170)
+            cy = rng.uniform(-80, 80)
+            if kind == "rectangle":
+                w, h = rng.uniform(5, 150), rng.uniform(5, 60)
+                pts = [(cx - w, cy - h), (cx + w, cy - h), (cx + w, cy + h), (cx - w, cy + h)]
+            else:
+                k = {"triangle": 3, "quad": 4, "pentagon": 5}[kind]
+                angs = sorted(rng.uniform(0, 2 * math.pi) for _ in range(k))
+                pts = [(cx + rng.uniform(10, 150) * math.cos(a), cy + rng.uniform(5, 70) * math.sin(a))
+                       for a in angs]
+            if rng.random() < 0.5:
+                pts.reverse()
+            pts = [(round(x * 8) / 8, round(y * 8) / 8) for x, y in pts]
+            region = np.array([v for p in pts for v in p])
+            how = rng.choice(["f64", "list", "f32", "readonly"])
+            arg = region.copy()
+            if how == "list":
+                arg = list(region)
+            elif how == "f32":
+                arg = region.astype(np.float32)
+            elif how == "readonly":
+                arg.flags.writeable = False
+            before = np.array(arg, dtype=np.float64).copy()
+            ctx.count(f"region:{kind}:{how}:grid-lon>=0={positive and min(lon) >= 0}")
+            ctx.case(("rg", tuple(lat), tuple(lon), tuple(region)), n >= 3)
+            desc = {"lat": lat, "lon": lon, "region": region.tolist(), "region_passed_as": how}
+            try:
+                got = [bool(v) for v in g.region_indices(arg)]
+            except Exception as e:  # noqa
+                ctx.fail({"kind": "region", "method": "region_indices", "error": type(e).__name__},
+                         f"region_indices raised {type(e).__name__}: {e}", desc)
+                continue
+            if not np.array_equal(np.array(arg, dtype=np.float64), before):
+                ctx.fail({"kind": "region", "method": "region_indices", "clause": "argument-modified"},
+                         "region_indices modified the caller's region array", desc)
+            remap = min(lon) >= 0
+            poly = [(Fr(x) + 360 if remap and x < 0 else Fr(x), Fr(y)) for x, y in pts]
+            exp = [crossing_inside(poly, (Fr(lon[i]), Fr(lat[i]))) for i in range(n)]
+            ctx.count("region:nodes-decided", sum(e is not None for e in exp))
+            ctx.count("region:nodes-inside", sum(bool(e) for e in exp))
+            # a self-intersecting remapped polygon is still decided by the even-odd rule only if
+            # matplotlib uses it; restrict the comparison to polygons that stay simple
+            simple = not remap or all(x >= 0 for x, _ in pts) or all(x < 0 for x, _ in pts)
+            if simple and (len(got) != n or any(e is not None and e != gv for e, gv in zip(exp, got))):
+                ctx.fail({"kind": "region", "class": "GeoGrid", "method": "region_indices"},
+                         "region_indices does not mark exactly the nodes inside the polygon "
+                         "(lon, lat pairs; negative polygon longitudes + 360 on a [0, 360] grid)",
+                         dict(desc, expected=exp, observed=got))
 
 
 # --------------------------------------------------------------------------
@@ -2057,65 +2267,70 @@ NET_OPS = [
 
 def suite_net_history(ctx, Grid, GeoGrid, GeoNetwork, SpatialNetwork, rng, ncases):
     for c in range(ncases):
-        geo = rng.random() < 0.7
-        n = rng.choice([3, 5, 8])
-        if geo:
-            _, lat, lon = gen_geo_coords(rng, n)
-            n = len(lat)
-            if n < 2:
-                continue
-            g = GeoGrid(np.arange(2), np.array(lat), np.array(lon), silence_level=3)
-            desc = {"lat": lat, "lon": lon}
-        else:
-            d = rng.randrange(1, 4)
-            _, X = gen_euc_coords(rng, d, n)
-            g = Grid(np.arange(2), np.array(X).reshape(d, n), silence_level=3)
-            desc = {"space_seq": X}
-        directed = rng.random() < 0.3
-        A = rand_adj(rng, n, directed)
-        for i in range(n - 1):                    # connected: path lengths stay finite
-            A[i, i + 1] = A[i + 1, i] = 1
-        net = (GeoNetwork if geo else SpatialNetwork)(g, adjacency=A, directed=directed,
-                                                       silence_level=3)
-        other = (GeoNetwork if geo else SpatialNetwork)(g, adjacency=A.T.copy(), directed=directed,
-                                                         silence_level=3)   # shares the grid
-        D0 = np.array(g.distance()).copy()
-        E0 = np.array(g.euclidean_distance()).copy()
-        ops = [o for o in NET_OPS if geo or not o[2]]
-        steps = [rng.choice(ops) for _ in range(rng.randrange(2, 6))]
-        if geo and rng.random() < 0.5:
-            steps.insert(rng.randrange(len(steps) + 1), NET_OPS[0])
-        done = []
-        ctx.case(("nh", str(desc), str([(s[0], sorted(s[1].items())) for s in steps])), True)
-        for nm, kw, _ in steps:
-            who = rng.choice([net, other])
-            try:
-                with np.errstate(all="ignore"), contextlib.redirect_stdout(io.StringIO()):
-                    getattr(who, nm)(**kw)
-            except (ZeroDivisionError, ValueError):
-                pass                              # constant sequences / isolated nodes: see L
-            except Exception as e:  # noqa
-                ctx.fail({"kind": "history", "method": nm, "error": type(e).__name__},
-                         f"{nm}({kw}) raised {type(e).__name__}: {e}",
-                         dict(desc, adjacency=A.tolist(), directed=directed, history=done + [nm]))
-                break
-            done.append(nm if not kw else f"{nm}({kw})")
-            ctx.count(f"net-history:{nm}")
-            D1, E1 = np.array(g.distance()), np.array(g.euclidean_distance())
-            if not (np.array_equal(D1, D0, equal_nan=True) and np.array_equal(E1, E0, equal_nan=True)):
-                which = "distance()" if not np.array_equal(D1, D0, equal_nan=True) \
-                    else "euclidean_distance()"
-                viol = ang_violations(D1, gc_matrix(g.lat_sequence(), g.lon_sequence())) if geo \
-                    else euc_violations(D1, euc_matrix(g._grid["space"]))
-                ctx.fail({"kind": "history", "class": type(net).__name__, "method": nm,
-                          "clause": "cached-distance-matrix-changed"},
-                         f"after {type(net).__name__}.{nm}({kw}) the grid's {which} is no longer the "
-                         f"matrix it returned before (the cached array was edited in place); "
-                         f"clauses now violated: {[v[0] for v in viol]}",
-                         dict(desc, adjacency=A.tolist(), directed=directed, history=done,
-                              steps=[[a, b] for a, b, _ in steps[:len(done)]],
-                              before=D0.astype(float).tolist(), after=D1.astype(float).tolist()))
-                break
+        cur = {}
+        with ImplGuard(ctx, "net-history", cur, []):
+            geo = rng.random() < 0.7
+            n = rng.choice([3, 5, 8])
+            if geo:
+                _, lat, lon = gen_geo_coords(rng, n)
+                n = len(lat)
+                if n < 2:
+                    continue
+                cur.update(lat=lat, lon=lon)
+                g = GeoGrid(np.arange(2), np.array(lat), np.array(lon), silence_level=3)
+                desc = {"lat": lat, "lon": lon}
+            else:
+                d = rng.choice([1, 2, 3, 5])
+                _, X = gen_euc_coords(rng, d, n)
+                cur.update(space_seq=X)
+                g = Grid(np.arange(2), np.array(X).reshape(d, n), silence_level=3)
+                desc = {"space_seq": X}
+            directed = rng.random() < 0.3
+            A = rand_adj(rng, n, directed)
+            for i in range(n - 1):                    # connected: path lengths stay finite
+                A[i, i + 1] = A[i + 1, i] = 1
+            cur.update(adjacency=A, directed=directed)
+            net = (GeoNetwork if geo else SpatialNetwork)(g, adjacency=A, directed=directed,
+                                                           silence_level=3)
+            other = (GeoNetwork if geo else SpatialNetwork)(g, adjacency=A.T.copy(), directed=directed,
+                                                             silence_level=3)   # shares the grid
+            D0 = np.array(g.distance()).copy()
+            E0 = np.array(g.euclidean_distance()).copy()
+            ops = [o for o in NET_OPS if geo or not o[2]]
+            steps = [rng.choice(ops) for _ in range(rng.randrange(2, 6))]
+            if geo and rng.random() < 0.5:
+                steps.insert(rng.randrange(len(steps) + 1), NET_OPS[0])
+            done = []
+            ctx.case(("nh", str(desc), str([(s[0], sorted(s[1].items())) for s in steps])), True)
+            for nm, kw, _ in steps:
+                who = rng.choice([net, other])
+                try:
+                    with np.errstate(all="ignore"), contextlib.redirect_stdout(io.StringIO()):
+                        getattr(who, nm)(**kw)
+                except (ZeroDivisionError, ValueError):
+                    pass                              # constant sequences / isolated nodes: see L
+                except Exception as e:  # noqa
+                    ctx.fail({"kind": "history", "method": nm, "error": type(e).__name__},
+                             f"{nm}({kw}) raised {type(e).__name__}: {e}",
+                             dict(desc, adjacency=A.tolist(), directed=directed, history=done + [nm]))
+                    break
+                done.append(nm if not kw else f"{nm}({kw})")
+                ctx.count(f"net-history:{nm}")
+                D1, E1 = np.array(g.distance()), np.array(g.euclidean_distance())
+                if not (np.array_equal(D1, D0, equal_nan=True) and np.array_equal(E1, E0, equal_nan=True)):
+                    which = "distance()" if not np.array_equal(D1, D0, equal_nan=True) \
+                        else "euclidean_distance()"
+                    viol = ang_violations(D1, gc_matrix(g.lat_sequence(), g.lon_sequence())) if geo \
+                        else euc_violations(D1, euc_matrix(g._grid["space"]))
+                    ctx.fail({"kind": "history", "class": type(net).__name__, "method": nm,
+                              "clause": "cached-distance-matrix-changed"},
+                             f"after {type(net).__name__}.{nm}({kw}) the grid's {which} is no longer the "
+                             f"matrix it returned before (the cached array was edited in place); "
+                             f"clauses now violated: {[v[0] for v in viol]}",
+                             dict(desc, adjacency=A.tolist(), directed=directed, history=done,
+                                  steps=[[a, b] for a, b, _ in steps[:len(done)]],
+                                  before=D0.astype(float).tolist(), after=D1.astype(float).tolist()))
+                    break
 
 # --------------------------------------------------------------------------
 # replay of a recorded violation:  ./check C12 --replay replays/C12_....json
@@ -2219,6 +2434,47 @@ def replay(ctx, rp):
                          "returned before (the cached array was edited in place)",
                          dict(r, after=D1.astype(float).tolist()))
                 break
+    elif kind == "exception":
+        # round 4: an exception raised by the code under test; re-build the objects of the
+        # recorded case and call the recorded entry point again
+        from pyunicorn.core.geo_network import GeoNetwork
+        from pyunicorn.core.spatial_network import SpatialNetwork
+        call = r.get("call")
+        try:
+            if "lat" in r and "lon" in r:
+                g = GeoGrid(np.arange(2), np.array(r["lat"]), np.array(r["lon"]), silence_level=3)
+            elif "space_seq" in r:
+                X = np.array(r["space_seq"], dtype=np.float64)
+                g = Grid(np.arange(2), X.reshape(len(r["space_seq"]), -1), silence_level=3)
+            elif "space_grid" in r:
+                g = Grid.RegularGrid(np.arange(2), [np.array(a, dtype=float) for a in r["space_grid"]],
+                                     silence_level=3)
+            else:
+                g = None
+            objs = [g]
+            if g is not None and "adjacency" in r:
+                cls_ = GeoNetwork if isinstance(g, GeoGrid) else SpatialNetwork
+                objs.insert(0, cls_(g, adjacency=np.array(r["adjacency"]),
+                                    directed=bool(r.get("directed", False)), silence_level=3))
+            tgt = next((o for o in objs if o is not None and hasattr(o, call or "")), None)
+            if tgt is None:
+                print(f"[C12] cannot re-run {call}; run ./check C12 with the same VERIF_SEED")
+            else:
+                with np.errstate(all="ignore"), contextlib.redirect_stdout(io.StringIO()):
+                    if call == "node_number" and "x" in r:
+                        tgt.node_number(tuple(r["x"]))
+                    elif call == "node_number":
+                        tgt.node_number(lat_node=r["lat_node"], lon_node=r["lon_node"])
+                    else:
+                        getattr(tgt, call)()
+                print(f"[C12] {call}() no longer raises on the recorded input")
+        except Exception as e:  # noqa
+            fr = impl_frames(e.__traceback__)
+            if not fr and isinstance(e, TypeError):
+                print(f"[C12] {call} needs arguments that were not recorded; run ./check C12 with "
+                      "the same VERIF_SEED")
+            else:
+                ctx.fail(sig, f"{call}() raised {type(e).__name__}: {e}", dict(r, frames=fr))
     else:
         print(f"[C12] no replay routine for signature {sig}; run ./check C12 with the same "
               "VERIF_SEED to regenerate the case")
